@@ -15,9 +15,11 @@ from ..model import (NOCONST, AnalysisError, FuncInfo, chain, clone, const_value
 LEVEL = "other"
 EXPLANATION = (
     "Exhaustive over the policy abstraction and over all feasible paths (path-sensitive walk of the CFG with a symbolic "
-    "state; calls of functions the reviewed tree does not have are followed with their parameters bound): is_allowed is "
+    "state; calls of functions the reviewed tree does not have are followed with their parameters bound; result objects - NamedTuple / "
+    "dataclass constructions, Enum members, tuples matched by `match` - module- and class-level tables, precompiled struct.Struct objects "
+    "and operator / functools / itertools spellings are read as the values and operations they denote): is_allowed is "
     "walked for all 32 assignments of its five atoms (bt, ipv8, BT-flag, IPV8-flag, own-prefix) and must return "
-    "(bt&BT)|(v8&V8)|(v8&own); every path of TunnelExitSocket.sendto to transport.sendto and of datagram_received to "
+    "(bt&BT)|(v8&V8)|(v8&own), reading the flags from the node's live settings (not from a copy stored on the socket); every path of TunnelExitSocket.sendto to transport.sendto and of datagram_received to "
     "tunnel_data has established a truthy is_allowed(<the very data emitted>); closed sets of callers for transport.sendto / "
     "exit_socket.sendto / enable / tunnel_data / exit_data / join_circuit; every path to exit_data has established "
     "destination != ('0.0.0.0', 0) and every path to transport.sendto the same for the address actually emitted (after "
@@ -98,6 +100,9 @@ class _Canon(ast.NodeTransformer):
 
     def visit_Call(self, n: ast.Call) -> ast.AST:
         self.generic_visit(n)
+        return self._call_post(n)
+
+    def _call_post(self, n: ast.Call) -> ast.AST:
         c = chain(n.func)
         if c == "struct.unpack_from":
             n.func = ast.Name(id="unpack_from", ctx=ast.Load())
@@ -145,9 +150,10 @@ def _param_root(fi: FuncInfo, e: ast.AST | None) -> str | None:
 # FOLLOWED: the helper's paths are walked with its parameters bound to the caller's arguments, its return value is what
 # the caller's condition / assignment sees.  Expressions are treated as stable between two evaluations unless something on
 # the path in between stores into a prefix of them, calls enable() (sets `.enabled`), or awaits.
-_SIM_PURE = _PURE_CALLS | {"isinstance", "str", "tuple", "int", "repr", "min", "max", "abs", "type", "id", "hash", "all", "any", "set",
+_SIM_PURE = _PURE_CALLS | {"isinstance", "str", "tuple", "int", "repr", "min", "max", "sum", "abs", "memoryview", "bytearray", "type", "id", "hash", "all", "any", "set",
                           "frozenset", "list", "dict", "sorted", "getattr", "hasattr", "be", "range", "divmod", "ord", "int.from_bytes",
                           "unpack", "struct.unpack", "Peer", "Hop"}
+_LIBS = ("operator", "functools", "itertools")
 _TABLE_ATTRS = ("self.exit_sockets", "self.circuits", "self.relay_from_to")
 _FOLLOW_DEPTH = 4
 _NEST = (ast.Lambda, ast.ListComp, ast.SetComp, ast.DictComp, ast.GeneratorExp, ast.FunctionDef, ast.AsyncFunctionDef, ast.ClassDef)
@@ -334,6 +340,49 @@ def _literal_items(e: ast.AST) -> list[ast.AST] | None:
     """the items of a literal sequence, or of a generator / list comprehension that maps one over a literal sequence"""
     if isinstance(e, (ast.Tuple, ast.List, ast.Set)) and not any(isinstance(x, ast.Starred) for x in e.elts):
         return list(e.elts)
+    if isinstance(e, ast.Call) and not e.keywords and e.args and not any(isinstance(a, ast.Starred) for a in e.args):
+        c, a = chain(e.func) or "", e.args
+        if c in ("tuple", "list", "iter", "reversed", "frozenset") and len(a) == 1:
+            items = _literal_items(a[0])
+            return None if items is None or (c == "frozenset" and not isinstance(a[0], (ast.Tuple, ast.List))) else items[::-1] if c == "reversed" else items
+        if c == "itertools.chain":
+            parts = [_literal_items(x) for x in a]
+            return None if any(p is None for p in parts) else [x for p in parts for x in p]
+        if c == "itertools.chain.from_iterable" and len(a) == 1:
+            outer = _literal_items(a[0])
+            parts = [_literal_items(x) for x in outer] if outer is not None else [None]
+            return None if any(p is None for p in parts) else [x for p in parts for x in p]
+        if c == "itertools.islice" and 2 <= len(a) <= 4 and all(x is None or (isinstance(x, int) and not isinstance(x, bool) and x >= 0)
+                                                                 for x in (const_value(y) for y in a[1:])):
+            items = _literal_items(a[0])
+            return None if items is None else items[slice(*[const_value(y) for y in a[1:]])]
+        if c == "zip":
+            parts = [_literal_items(x) for x in a]
+            return None if any(p is None for p in parts) else [ast.Tuple(elts=list(t), ctx=ast.Load()) for t in zip(*parts)]
+        if c == "enumerate" and len(a) <= 2 and (len(a) == 1 or _is_int_const(a[1])):
+            items = _literal_items(a[0])
+            k0 = a[1].value if len(a) == 2 else 0
+            return None if items is None else [ast.Tuple(elts=[ast.Constant(value=k0 + i), x], ctx=ast.Load()) for i, x in enumerate(items)]
+        if c in ("map", "itertools.starmap") and len(a) >= 2:
+            parts = [_literal_items(x) for x in a[1:]]
+            if any(p is None for p in parts) or (c != "map" and len(a) != 2):
+                return None
+            rows = [list(t) for t in zip(*parts)] if c == "map" else [list(t.elts) if isinstance(t, (ast.Tuple, ast.List)) else None for t in parts[0]]
+            if any(r is None or any(isinstance(x, ast.Starred) for x in r) for r in rows):
+                return None
+            f = a[0]
+            out = []
+            for r in rows:
+                if isinstance(f, ast.Lambda):
+                    ps = f.args
+                    if ps.vararg or ps.kwarg or ps.kwonlyargs or ps.defaults or len(ps.posonlyargs + ps.args) != len(r):
+                        return None
+                    out.append(_subst_names(f.body, {q.arg: x for q, x in zip(ps.posonlyargs + ps.args, r)}))
+                else:
+                    out.append(ast.Call(func=clone(f), args=[clone(x) for x in r], keywords=[]))
+            return out
+        if c == "filter" and len(a) == 2 and isinstance(a[0], ast.Constant) and a[0].value is None:
+            return None                     # (which items remain depends on their truth values)
     if isinstance(e, (ast.GeneratorExp, ast.ListComp)) and len(e.generators) == 1:
         g = e.generators[0]
         src_items = _literal_items(g.iter)
@@ -349,6 +398,25 @@ def _literal_items(e: ast.AST) -> list[ast.AST] | None:
             else:
                 return None
             out.append(_subst_names(e.elt, m))
+        return out
+    return None
+
+
+_SEQ_FUNCS = ("itertools.chain", "itertools.chain.from_iterable", "itertools.islice", "itertools.starmap", "zip", "enumerate", "map", "reversed")
+
+
+def _target_bindings(t: ast.AST, val: ast.AST) -> dict[str, ast.AST] | None:
+    """name -> item for binding the loop target t to the (canonical) item val; None when the shapes do not fit"""
+    if isinstance(t, ast.Name):
+        return {t.id: val}
+    if isinstance(t, (ast.Tuple, ast.List)) and isinstance(val, (ast.Tuple, ast.List)) and len(t.elts) == len(val.elts) \
+            and not any(isinstance(x, ast.Starred) for x in [*t.elts, *val.elts]):
+        out: dict[str, ast.AST] = {}
+        for a, b in zip(t.elts, val.elts):
+            sub = _target_bindings(a, b)
+            if sub is None:
+                return None
+            out.update(sub)
         return out
     return None
 
@@ -468,18 +536,43 @@ def _single_bytes(n: ast.Compare) -> ast.AST:
     return wrap(alts[0] if len(alts) == 1 else ast.BoolOp(op=ast.Or(), values=alts))
 
 
+def _struct_format(e: ast.AST) -> str | None:
+    """the format of a `Struct(fmt)` / `struct.Struct(fmt)` construction with a constant format"""
+    if isinstance(e, ast.Call) and chain(e.func) in ("Struct", "struct.Struct") and len(e.args) == 1 and not e.keywords:
+        v = const_value(e.args[0])
+        return v if isinstance(v, (str, bytes)) and not isinstance(v, bytes) else (v.decode("ascii", "replace") if isinstance(v, bytes) else None)
+    return None
+
+
 class _Canon2(_Canon):
     """_Canon plus the rewrites that only make sense for the path walk's `maybe-None` reading of table lookups."""
 
-    def __init__(self, hop_address: bool) -> None:
+    def __init__(self, hop_address: bool, sym: "_Sym | None" = None) -> None:
         super().__init__(dict_get=True)
         self.hop_address = hop_address
+        self.sym = sym
 
     def visit_Call(self, n: ast.Call) -> ast.AST:
-        r = super().visit_Call(n)
+        self.generic_visit(n)
+        f = n.func
+        if isinstance(f, ast.Attribute) and f.attr in ("unpack_from", "unpack", "pack", "iter_unpack") and _struct_format(f.value) is not None:
+            # a precompiled struct.Struct(fmt) object: S.unpack_from(buf, off) is unpack_from(fmt, buf, off)
+            n = ast.Call(func=ast.Name(id=f.attr, ctx=ast.Load()), args=[ast.Constant(value=_struct_format(f.value)), *n.args], keywords=n.keywords)
+        r = self._call_post(n)
         if not isinstance(r, ast.Call):
             return r
+        lib = self._library_call(r)
+        if lib is not None:
+            return lib
         c = chain(r.func) or ""
+        if c in ("bytes", "bytearray", "memoryview") and len(r.args) == 1 and not r.keywords and (
+                (isinstance(r.args[0], ast.Subscript) and isinstance(r.args[0].slice, ast.Slice)) or
+                (isinstance(r.args[0], ast.Name) and r.args[0].id == "data" and c == "memoryview") or
+                (isinstance(r.args[0], ast.Call) and chain(r.args[0].func) in ("bytes", "bytearray", "memoryview"))):
+            return r.args[0]                # a copy / view of a slice of a buffer compares and indexes like the slice
+        if c == "isinstance" and len(r.args) == 2 and not r.keywords and isinstance(r.args[0], ast.Call) and self.sym is not None \
+                and chain(r.args[0].func) is not None and chain(r.args[0].func) == chain(r.args[1]) and self.sym._record(r.args[0].func) is not None:
+            return ast.Constant(value=True)          # a record object is an instance of the class whose constructor made it
         if isinstance(r.func, ast.Attribute) and r.func.attr == "issubset" and len(r.args) == 1 \
                 and not r.keywords and isinstance(r.func.value, ast.Set) and len(r.func.value.elts) == 1:
             return self.visit_Compare(ast.Compare(left=r.func.value.elts[0], ops=[ast.In()], comparators=[r.args[0]]))
@@ -505,6 +598,64 @@ class _Canon2(_Canon):
             return ast.Tuple(elts=[self.visit_BinOp(ast.BinOp(left=r.args[0], op=ast.FloorDiv(), right=r.args[1])),
                                    self.visit_BinOp(ast.BinOp(left=clone(r.args[0]), op=ast.Mod(), right=clone(r.args[1])))], ctx=ast.Load())
         return r
+
+    _OP_CMP = {"eq": ast.Eq, "ne": ast.NotEq, "lt": ast.Lt, "le": ast.LtE, "gt": ast.Gt, "ge": ast.GtE, "is_": ast.Is, "is_not": ast.IsNot}
+    _OP_BIN = {"and_": ast.BitAnd, "or_": ast.BitOr, "xor": ast.BitXor, "lshift": ast.LShift, "rshift": ast.RShift, "add": ast.Add, "sub": ast.Sub,
+               "mul": ast.Mult, "floordiv": ast.FloorDiv, "mod": ast.Mod}
+
+    def _library_call(self, r: ast.Call) -> ast.AST | None:
+        """operator.* / functools.partial / dunder spellings of an operation -> the operation itself (arguments are already canonical)"""
+        plain = not r.keywords and not any(isinstance(a, ast.Starred) for a in r.args)
+        f = r.func
+        if isinstance(f, ast.Call) and not any(isinstance(a, ast.Starred) for a in [*f.args, *r.args]):
+            fc = chain(f.func) or ""
+            if fc == "operator.itemgetter" and f.args and not f.keywords and plain and len(r.args) == 1:
+                items = [self.visit_Subscript(ast.Subscript(value=clone(r.args[0]), slice=a, ctx=ast.Load())) for a in f.args]
+                return items[0] if len(items) == 1 else ast.Tuple(elts=items, ctx=ast.Load())
+            if fc == "operator.attrgetter" and len(f.args) == 1 and not f.keywords and plain and len(r.args) == 1 \
+                    and isinstance(const_value(f.args[0]), str) and all(p.isidentifier() for p in const_value(f.args[0]).split(".")):
+                out = r.args[0]
+                for part in const_value(f.args[0]).split("."):
+                    out = self.visit_Attribute(ast.Attribute(value=out, attr=part, ctx=ast.Load()))
+                return out
+            if fc == "operator.methodcaller" and f.args and isinstance(const_value(f.args[0]), str) and const_value(f.args[0]).isidentifier() \
+                    and plain and len(r.args) == 1:
+                return self.visit_Call(ast.Call(func=ast.Attribute(value=r.args[0], attr=const_value(f.args[0]), ctx=ast.Load()),
+                                                args=list(f.args[1:]), keywords=list(f.keywords)))
+            if fc == "functools.partial" and f.args and not any(k.arg is None for k in [*f.keywords, *r.keywords]):
+                kw = {k.arg: k.value for k in f.keywords}
+                kw.update({k.arg: k.value for k in r.keywords})
+                return self.visit_Call(ast.Call(func=f.args[0], args=[*f.args[1:], *r.args], keywords=[ast.keyword(arg=k, value=v) for k, v in kw.items()]))
+        c = chain(f) or ""
+        if c.startswith("operator.") and plain:
+            name, a = c[len("operator."):], r.args
+            if name in self._OP_CMP and len(a) == 2:
+                return self.visit_Compare(ast.Compare(left=a[0], ops=[self._OP_CMP[name]()], comparators=[a[1]]))
+            if name == "contains" and len(a) == 2:
+                return self.visit_Compare(ast.Compare(left=a[1], ops=[ast.In()], comparators=[a[0]]))
+            if name in self._OP_BIN and len(a) == 2:
+                return self.visit_BinOp(ast.BinOp(left=a[0], op=self._OP_BIN[name](), right=a[1]))
+            if name == "not_" and len(a) == 1:
+                return ast.UnaryOp(op=ast.Not(), operand=a[0])
+            if name == "truth" and len(a) == 1:
+                return ast.Call(func=ast.Name(id="bool", ctx=ast.Load()), args=[a[0]], keywords=[])
+            if name in ("neg", "inv", "invert") and len(a) == 1:
+                return ast.UnaryOp(op=ast.USub() if name == "neg" else ast.Invert(), operand=a[0])
+            if name == "getitem" and len(a) == 2:
+                return self.visit_Subscript(ast.Subscript(value=a[0], slice=a[1], ctx=ast.Load()))
+        if isinstance(f, ast.Attribute) and plain and len(r.args) == 1:
+            one = r.args[0].elts[0] if isinstance(r.args[0], ast.Set) and len(r.args[0].elts) == 1 and not isinstance(r.args[0].elts[0], ast.Starred) else None
+            own = f.value.elts[0] if isinstance(f.value, ast.Set) and len(f.value.elts) == 1 and not isinstance(f.value.elts[0], ast.Starred) else None
+            if f.attr == "__contains__":
+                return self.visit_Compare(ast.Compare(left=r.args[0], ops=[ast.In()], comparators=[f.value]))
+            if f.attr == "__getitem__":
+                return self.visit_Subscript(ast.Subscript(value=f.value, slice=r.args[0], ctx=ast.Load()))
+            if f.attr == "issuperset" and one is not None:
+                return self.visit_Compare(ast.Compare(left=one, ops=[ast.In()], comparators=[f.value]))           # s.issuperset({x})
+            if f.attr == "isdisjoint" and (one is not None or own is not None):
+                x, cont = (one, f.value) if one is not None else (own, r.args[0])
+                return self.visit_Compare(ast.Compare(left=x, ops=[ast.NotIn()], comparators=[cont]))             # s.isdisjoint({x})
+        return None
 
     def visit_BinOp(self, n: ast.BinOp) -> ast.AST:
         self.generic_visit(n)
@@ -537,6 +688,18 @@ class _Canon2(_Canon):
             f = _unpacked_field(n.value, i.value)
             if f is not None:
                 return f
+        if isinstance(n.value, ast.Dict) and const_value(i) is not NOCONST and all(k is not None and const_value(k) is not NOCONST for k in n.value.keys):
+            hit = [v for k, v in zip(n.value.keys, n.value.values) if const_value(k) == const_value(i) and type(const_value(k)) is type(const_value(i))]
+            if hit:
+                return hit[-1]                                            # {"a": x, "b": y}["a"] -> x
+        iv = const_value(i)
+        if isinstance(iv, int) and not isinstance(iv, bool) and isinstance(n.value, ast.Call) and self.sym is not None:
+            f = self.sym._record_field(n.value, iv)
+            if f is not None:
+                return f                                                  # NamedTuple(a, b)[0] -> a
+        if isinstance(iv, int) and not isinstance(iv, bool) and iv < 0 and isinstance(n.value, (ast.Tuple, ast.List)) \
+                and -len(n.value.elts) <= iv and not any(isinstance(e, ast.Starred) for e in n.value.elts):
+            return n.value.elts[iv]                                       # (a, b)[-1] -> b
         if _is_int_const(i) and i.value >= 0:
             v = n.value
             if isinstance(v, (ast.Tuple, ast.List)) and i.value < len(v.elts) and not any(isinstance(e, ast.Starred) for e in v.elts):
@@ -579,6 +742,17 @@ class _Canon2(_Canon):
                     if a == b:
                         return ast.Constant(value=bool(a))
                     return tern.test if a else ast.UnaryOp(op=ast.Not(), operand=tern.test)
+        if len(n.ops) == 1 and isinstance(n.ops[0], (ast.Is, ast.IsNot, ast.Eq, ast.NotEq)):
+            for a, b in ((n.left, n.comparators[0]), (n.comparators[0], n.left)):
+                if isinstance(b, ast.Constant) and isinstance(b.value, bool) and not isinstance(a, ast.Constant) and _boolean_valued(a):
+                    # a value that is a bool `is True` / `== True` exactly when it is truthy
+                    return a if b.value == isinstance(n.ops[0], (ast.Is, ast.Eq)) else ast.UnaryOp(op=ast.Not(), operand=a)
+        if len(n.ops) == 1 and isinstance(n.ops[0], (ast.Is, ast.IsNot)):
+            for a, b in ((n.left, n.comparators[0]), (n.comparators[0], n.left)):
+                if isinstance(b, ast.Constant) and b.value is None and _table_lookup_keys(a, self.sym) is not None:
+                    # {k1: f1, k2: f2}.get(k) is None  exactly when k is none of the keys (the entries are functions, never None)
+                    op = ast.NotIn() if isinstance(n.ops[0], ast.Is) else ast.In()
+                    return self.visit_Compare(ast.Compare(left=a.slice, ops=[op], comparators=[_table_lookup_keys(a, self.sym)]))
         if len(n.ops) == 1 and isinstance(n.ops[0], (ast.Is, ast.IsNot)):
             for a, b in ((n.left, n.comparators[0]), (n.comparators[0], n.left)):
                 if isinstance(b, ast.Constant) and b.value is None and _never_none(a):
@@ -588,6 +762,9 @@ class _Canon2(_Canon):
         if len(n.ops) == 1 and isinstance(n.ops[0], ast.LtE) and isinstance(n.left, ast.Set) and len(n.left.elts) == 1 \
                 and not isinstance(n.left.elts[0], ast.Starred):
             n = ast.Compare(left=n.left.elts[0], ops=[ast.In()], comparators=n.comparators)      # {x} <= s  is  x in s
+        if len(n.ops) == 1 and isinstance(n.ops[0], ast.GtE) and isinstance(n.comparators[0], ast.Set) and len(n.comparators[0].elts) == 1 \
+                and not isinstance(n.comparators[0].elts[0], ast.Starred):
+            n = ast.Compare(left=n.comparators[0].elts[0], ops=[ast.In()], comparators=[n.left])  # s >= {x}  is  x in s
         if len(n.ops) == 1 and isinstance(n.ops[0], (ast.In, ast.NotIn)):
             r = n.comparators[0]
             while isinstance(r, ast.Call) and chain(r.func) in ("set", "frozenset", "list", "tuple") and len(r.args) == 1 and not r.keywords:
@@ -597,10 +774,106 @@ class _Canon2(_Canon):
 
     def visit_Attribute(self, n: ast.Attribute) -> ast.AST:
         self.generic_visit(n)
+        if isinstance(n.value, ast.Call) and isinstance(n.ctx, ast.Load):
+            if n.attr == "size" and _struct_format(n.value) is not None:
+                try:
+                    import struct
+                    return ast.Constant(value=struct.calcsize(_struct_format(n.value)))
+                except Exception:  # noqa: BLE001
+                    return n
+            if self.sym is not None:
+                f = self.sym._record_field(n.value, n.attr)
+                if f is not None:
+                    return f                                              # Verdict(a, b, allowed=c).allowed -> c
         if self.hop_address and n.attr == "address" and isinstance(n.value, ast.Attribute) and n.value.attr == "peer" \
                 and isinstance(n.value.value, ast.Attribute) and n.value.value.attr == "hop":
             return ast.Attribute(value=n.value.value, attr="address", ctx=ast.Load())     # Hop.address is `self.peer.address`
         return n
+
+
+def _table_lookup_keys(x: ast.AST, sym: "_Sym | None") -> ast.AST | None:
+    """x is `{k1: f1, ..}.get(k)` (canonical: a subscript of a dict display) with constant keys whose entries are all functions /
+    bound methods / lambdas: the tuple of the keys"""
+    if not (isinstance(x, ast.Subscript) and isinstance(x.value, ast.Dict) and x.value.keys and sym is not None):
+        return None
+    if any(k is None or const_value(k) is NOCONST for k in x.value.keys) or not all(sym._callable_ref(v) for v in x.value.values):
+        return None
+    return ast.Tuple(elts=[clone(k) for k in x.value.keys], ctx=ast.Load())
+
+
+def _boolean_valued(x: ast.AST) -> bool:
+    x = strip_cast(x)
+    if isinstance(x, ast.Constant):
+        return isinstance(x.value, bool)
+    if isinstance(x, ast.Compare) or (isinstance(x, ast.UnaryOp) and isinstance(x.op, ast.Not)):
+        return True
+    if isinstance(x, ast.Call):
+        c = chain(x.func) or ""
+        return c in ("bool", "isinstance", "any", "all", "self.is_allowed") or c.startswith("DataChecker.could_be_") \
+            or (isinstance(x.func, ast.Attribute) and x.func.attr in ("startswith", "endswith", "isdisjoint", "issubset", "issuperset"))
+    if isinstance(x, ast.BoolOp):
+        return all(_boolean_valued(v) for v in x.values)
+    if isinstance(x, ast.BinOp) and isinstance(x.op, (ast.BitAnd, ast.BitOr, ast.BitXor)):
+        return _boolean_valued(x.left) and _boolean_valued(x.right)
+    if isinstance(x, ast.IfExp):
+        return _boolean_valued(x.body) and _boolean_valued(x.orelse)
+    return False
+
+
+def _one_of_set(x: ast.AST) -> ast.AST | None:
+    return x.elts[0] if isinstance(x, ast.Set) and len(x.elts) == 1 and not isinstance(x.elts[0], ast.Starred) else None
+
+
+def _as_cond(x: ast.AST, sym: "_Sym | None" = None) -> ast.AST:
+    """an expression that is truthy exactly when x is (x is only used as a condition): `a | b` -> `a or b` (non-zero / non-empty iff one
+    of them is), `a & b` of booleans -> `a and b`, `{k} & s` / `s.intersection({k})` -> `k in s`, a lookup in a table of functions ->
+    the key is in the table"""
+    x = strip_cast(x)
+    if sym is not None and _table_lookup_keys(x, sym) is not None:
+        return _Canon2(sym.hop_address, sym).visit_Compare(ast.Compare(left=clone(x.slice), ops=[ast.In()], comparators=[_table_lookup_keys(x, sym)]))
+    if isinstance(x, ast.BinOp) and isinstance(x.op, ast.BitOr):
+        return ast.BoolOp(op=ast.Or(), values=[_as_cond(x.left, sym), _as_cond(x.right, sym)])
+    if isinstance(x, ast.BinOp) and isinstance(x.op, ast.BitAnd):
+        for one, other in ((_one_of_set(x.left), x.right), (_one_of_set(x.right), x.left)):
+            if one is not None:
+                return ast.Compare(left=one, ops=[ast.In()], comparators=[other])
+        if _boolean_valued(x.left) and _boolean_valued(x.right):
+            return ast.BoolOp(op=ast.And(), values=[_as_cond(x.left, sym), _as_cond(x.right, sym)])
+    if isinstance(x, ast.Call) and isinstance(x.func, ast.Attribute) and x.func.attr == "intersection" and len(x.args) == 1 and not x.keywords:
+        for one, other in ((_one_of_set(x.args[0]), x.func.value), (_one_of_set(x.func.value), x.args[0])):
+            if one is not None:
+                return ast.Compare(left=one, ops=[ast.In()], comparators=[other])
+    if isinstance(x, ast.Call) and chain(x.func) == "bool" and len(x.args) == 1 and not x.keywords:
+        return _as_cond(x.args[0], sym)
+    # counting / ordering booleans: max(a, b) and sum((a, b)) are truthy iff one of them is, min(a, b) iff all are
+    if isinstance(x, ast.Call) and chain(x.func) in ("max", "min", "sum") and x.args and not x.keywords:
+        items = list(x.args) if len(x.args) > 1 and chain(x.func) != "sum" else _literal_items(x.args[0]) if len(x.args) == 1 else None
+        if items and all(_boolean_valued(i) for i in items):
+            return ast.BoolOp(op=ast.And() if chain(x.func) == "min" else ast.Or(), values=[_as_cond(i, sym) for i in items]) if len(items) > 1 \
+                else _as_cond(items[0], sym)
+    if isinstance(x, ast.Compare) and len(x.ops) == 1:
+        l, op, r = x.left, x.ops[0], x.comparators[0]
+        if isinstance(l, ast.Call) and chain(l.func) == "sum" and _is_int_const(r):
+            inner = _as_cond(l, sym)
+            if inner is not l:
+                if (isinstance(op, ast.Gt) and r.value == 0) or (isinstance(op, ast.GtE) and r.value == 1) or (isinstance(op, ast.NotEq) and r.value == 0):
+                    return inner
+                if (isinstance(op, ast.Eq) and r.value == 0) or (isinstance(op, ast.Lt) and r.value == 1) or (isinstance(op, ast.LtE) and r.value == 0):
+                    return ast.UnaryOp(op=ast.Not(), operand=inner)
+        if isinstance(op, (ast.In, ast.NotIn)) and isinstance(l, ast.Constant) and isinstance(l.value, bool):
+            items = _literal_items(r)
+            if items and all(_boolean_valued(i) for i in items):
+                # True in (a, b): one of them is true;  False in (a, b): one of them is false
+                vals = [_as_cond(i, sym) if l.value else ast.UnaryOp(op=ast.Not(), operand=_as_cond(i, sym)) for i in items]
+                inner = vals[0] if len(vals) == 1 else ast.BoolOp(op=ast.Or(), values=vals)
+                return inner if isinstance(op, ast.In) else ast.UnaryOp(op=ast.Not(), operand=inner)
+    if isinstance(x, ast.UnaryOp) and isinstance(x.op, ast.Not):
+        inner = _as_cond(x.operand, sym)
+        return x if inner is x.operand else ast.UnaryOp(op=ast.Not(), operand=inner)
+    if isinstance(x, ast.BoolOp):
+        vals = [_as_cond(v, sym) for v in x.values]
+        return x if all(a is b for a, b in zip(vals, x.values)) else ast.BoolOp(op=x.op, values=vals)
+    return x
 
 
 class _Sym:
@@ -702,23 +975,90 @@ class _Sym:
                     continue                # the generator is suspended here; whoever iterates resumes it
                 self._dfs(fr, v, st2, used | {key}, out)
 
-    def _pattern_cond(self, fr: _Frame, subj: ast.AST, pat: ast.AST, st: _St):
-        """the condition under which a `case` pattern matches: an expression, True (always), or None (not modelled)"""
+    def _pattern(self, fr: _Frame, subj: ast.AST, pat: ast.AST, st: _St) -> tuple:
+        """(condition, bindings) of a `case` pattern matched against the canonical subject: the condition is an expression, True
+        (always matches) or None (not modelled: may or may not match); bindings name -> canonical value (None: unknown value)"""
+        canon = _Canon2(self.hop_address, self)
         if isinstance(pat, ast.MatchSingleton):
-            return ast.Compare(left=subj, ops=[ast.Is()], comparators=[ast.Constant(value=pat.value)])
+            return ast.Compare(left=subj, ops=[ast.Is()], comparators=[ast.Constant(value=pat.value)]), {}
         if isinstance(pat, ast.MatchValue):
-            return ast.Compare(left=subj, ops=[ast.Eq()], comparators=[self.C(fr, pat.value, st)])
+            return ast.Compare(left=subj, ops=[ast.Eq()], comparators=[self.C(fr, pat.value, st)]), {}
         if isinstance(pat, ast.MatchAs):
-            return True if pat.pattern is None else self._pattern_cond(fr, subj, pat.pattern, st)
+            if pat.pattern is None:
+                return True, ({pat.name: subj} if pat.name else {})
+            c, b = self._pattern(fr, subj, pat.pattern, st)
+            return c, ({**b, pat.name: subj} if pat.name else b)
         if isinstance(pat, ast.MatchOr):
-            cs = [self._pattern_cond(fr, subj, q, st) for q in pat.patterns]
+            parts = [self._pattern(fr, subj, q, st) for q in pat.patterns]
+            names = {k for _, b in parts for k in b}
+            binds = {k: None for k in names}
+            cs = [c for c, _ in parts]
             if any(c is True for c in cs):
-                return True
-            return None if any(c is None for c in cs) else ast.BoolOp(op=ast.Or(), values=cs)
-        return None
+                return True, binds
+            return (None if any(c is None for c in cs) else ast.BoolOp(op=ast.Or(), values=cs)), binds
+        if isinstance(pat, ast.MatchSequence):
+            names = {getattr(q, "name", None) for q in ast.walk(pat)} - {None}
+            unknown = (None, {k: None for k in names})
+            items = list(subj.elts) if isinstance(subj, (ast.Tuple, ast.List)) and not any(isinstance(e, ast.Starred) for e in subj.elts) else None
+            if items is None and isinstance(subj, ast.Call) and self._record(subj.func) is not None and self._record(subj.func)[2]:
+                fields = self._record(subj.func)[0] or []
+                items = [self._record_field(subj, i) for i in range(len(fields))]
+                items = None if any(x is None for x in items) else items
+            if items is None:
+                vals = [self.C(fr, q.value, st) if isinstance(q, ast.MatchValue) else ast.Constant(value=q.value) if isinstance(q, ast.MatchSingleton)
+                        else None for q in pat.patterns]
+                if vals and all(v is not None and const_value(v) is not NOCONST for v in vals):
+                    # `case ("0.0.0.0", 0):` on a value that is a tuple wherever it equals that tuple: no match => it differs from it
+                    return ast.Compare(left=subj, ops=[ast.Eq()], comparators=[ast.Tuple(elts=vals, ctx=ast.Load())]), {}
+                return unknown
+            stars = [i for i, q in enumerate(pat.patterns) if isinstance(q, ast.MatchStar)]
+            if len(stars) > 1:
+                return unknown
+            if not stars and len(items) != len(pat.patterns) or stars and len(items) < len(pat.patterns) - 1:
+                return ast.Constant(value=False), {}
+            pairs = list(zip(pat.patterns, items)) if not stars else \
+                [*zip(pat.patterns[:stars[0]], items), *zip(pat.patterns[stars[0] + 1:], items[len(items) - (len(pat.patterns) - stars[0] - 1):])]
+            conds, binds = [], {}
+            if stars and pat.patterns[stars[0]].name:
+                k = stars[0]
+                binds[pat.patterns[k].name] = ast.List(elts=items[k:len(items) - (len(pat.patterns) - k - 1)], ctx=ast.Load())
+            for q, it in pairs:
+                c, b = self._pattern(fr, it, q, st)
+                binds.update(b)
+                conds.append(c)
+            return self._all_of(conds), binds
+        if isinstance(pat, ast.MatchClass) and isinstance(pat.cls, (ast.Name, ast.Attribute)):
+            names = {getattr(q, "name", None) for q in ast.walk(pat)} - {None}
+            attrs = list(pat.kwd_attrs)
+            subs = list(pat.kwd_patterns)
+            if pat.patterns:
+                rec = self._record(pat.cls)
+                if rec is None or rec[0] is None or len(pat.patterns) > len(rec[0]):
+                    return None, {k: None for k in names}
+                attrs = [*rec[0][:len(pat.patterns)], *attrs]
+                subs = [*pat.patterns, *subs]
+            conds = [canon.visit(ast.Call(func=ast.Name(id="isinstance", ctx=ast.Load()), args=[clone(subj), self.C(fr, pat.cls, st)], keywords=[]))]
+            binds = {}
+            for a, q in zip(attrs, subs):
+                c, b = self._pattern(fr, canon.visit(ast.Attribute(value=clone(subj), attr=a, ctx=ast.Load())), q, st)
+                binds.update(b)
+                conds.append(c)
+            return self._all_of(conds), binds
+        names = {getattr(q, "name", None) for q in ast.walk(pat)} | {getattr(q, "rest", None) for q in ast.walk(pat)}
+        return None, {k: None for k in names if isinstance(k, str)}
+
+    @staticmethod
+    def _all_of(conds: list):
+        conds = [c for c in conds if c is not True and not (isinstance(c, ast.Constant) and c.value is True)]
+        if any(isinstance(c, ast.Constant) and c.value is False for c in conds):
+            return ast.Constant(value=False)
+        if any(c is None for c in conds):
+            return None
+        return True if not conds else conds[0] if len(conds) == 1 else ast.BoolOp(op=ast.And(), values=conds)
 
     def _dfs_match(self, fr: _Frame, u, m: ast.Match, st: _St, used: frozenset, out: list) -> None:
-        """`match subject:` - the cases are tried in order; literal / None / wildcard patterns are conditions on the subject"""
+        """`match subject:` - the cases are tried in order; literal / None / wildcard / sequence / record-class patterns are conditions
+        on the subject"""
         succ = [(i, v) for i, (v, l) in enumerate(u.succ) if l is None]
         for lab, st2 in self._eval_node(fr, u, st):
             if lab is not None:
@@ -731,13 +1071,11 @@ class _Sym:
             for (i, v), case in zip(succ, m.cases):
                 if rest is None:
                     break
-                cond = self._pattern_cond(fr, subj, case.pattern, rest)
+                cond, binds = self._pattern(fr, subj, case.pattern, rest)
                 taken = rest.copy()
-                ok = True if cond is True or cond is None else self.assume(_Canon2(self.hop_address).visit(clone(cond)), True, taken)
-                for q in ast.walk(case.pattern):
-                    name = getattr(q, "name", None) or (getattr(q, "rest", None) if isinstance(q, ast.MatchMapping) else None)
-                    if isinstance(name, str):
-                        taken.env[name] = clone(subj) if isinstance(q, ast.MatchAs) and q is case.pattern and self._pure(subj) else self._opaque(fr, name, u)
+                ok = True if cond is True or cond is None else self.assume(_Canon2(self.hop_address, self).visit(clone(cond)), True, taken)
+                for name, val in binds.items():
+                    taken.env[name] = clone(val) if val is not None and self._pure(val) else self._opaque(fr, name, u)
                 if ok and case.guard is not None:
                     ok = self.assume(self.C(fr, case.guard, taken), True, taken)
                 key = (u.id, i, ())
@@ -748,7 +1086,7 @@ class _Sym:
                         rest = None
                     elif cond is not None:
                         rest = rest.copy()
-                        if not self.assume(_Canon2(self.hop_address).visit(clone(cond)), False, rest):
+                        if not self.assume(_Canon2(self.hop_address, self).visit(clone(cond)), False, rest):
                             rest = None
             if rest is not None and len(succ) > len(m.cases):
                 i, v = succ[len(m.cases)]
@@ -778,15 +1116,54 @@ class _Sym:
                     # a local lambda applied to arguments is its body with the parameters replaced (its free names were resolved when
                     # it was bound)
                     return _subst_names(lam.body, {q.arg: sub(x) for q, x in zip(ps.posonlyargs + ps.args, n.args)})
-            if isinstance(n, (ast.GeneratorExp, ast.ListComp)) and len(n.generators) == 1:
-                # a comprehension over a literal sequence (possibly held in a local) is the sequence of its items
+            if isinstance(n, (ast.GeneratorExp, ast.ListComp)) and len(n.generators) == 1 and not n.generators[0].ifs \
+                    and not n.generators[0].is_async:
+                # a comprehension over a literal sequence (possibly held in a local / a module-level table / built by zip, chain,
+                # enumerate, ..) is the sequence of its element expression with the target bound to each item in turn
                 g = n.generators[0]
-                probe = type(n)(elt=n.elt, generators=[ast.comprehension(target=g.target, iter=sub(g.iter), ifs=g.ifs, is_async=g.is_async)])
-                items = _literal_items(probe)
-                if items is not None:
-                    return sub(ast.Tuple(elts=items, ctx=ast.Load()))
+                items = _literal_items(sub(g.iter))
+                binds = [_target_bindings(g.target, it) for it in items] if items is not None else [None]
+                if all(b is not None for b in binds):
+                    out = []
+                    for b in binds:
+                        saved = {k: st.env.get(k) for k in b}
+                        st.env.update(b)
+                        try:
+                            out.append(sub(n.elt))
+                        finally:
+                            for k, v in saved.items():
+                                if v is None:
+                                    st.env.pop(k, None)
+                                else:
+                                    st.env[k] = v
+                    return ast.Tuple(elts=out, ctx=ast.Load())
+            if isinstance(n, ast.Lambda):
+                # the lambda's free names are read when it is applied - in the places the walk looks at (map / any / a local that is
+                # called right away) that is the state it was written in
+                a = n.args
+                own = {q.arg for q in [*a.posonlyargs, *a.args, *a.kwonlyargs, *([a.vararg] if a.vararg else []), *([a.kwarg] if a.kwarg else [])]}
+                saved = {k: st.env.pop(k) for k in own if k in st.env}
+                shadow = {k: ast.Name(id=k, ctx=ast.Load()) for k in own}
+                st.env.update(shadow)
+                try:
+                    body = sub(n.body)
+                finally:
+                    for k in own:
+                        st.env.pop(k, None)
+                    st.env.update(saved)
+                return ast.Lambda(args=n.args, body=body)
             if isinstance(n, _NEST):
                 return clone(n)
+            if isinstance(n, ast.Attribute) and isinstance(n.ctx, ast.Load) and self._lib_ref(fr.fi.module, n, st) is not None:
+                return ast.Name(id=self._lib_ref(fr.fi.module, n, st), ctx=ast.Load())
+            if isinstance(n, ast.Attribute) and isinstance(n.ctx, ast.Load) and n.attr in self.new_funcs and depth < 3:
+                pv = self._property_value(fr, n, st, depth)
+                if pv is not None:
+                    return pv
+            if isinstance(n, ast.Attribute) and isinstance(n.ctx, ast.Load) and self._global_root(n, st):
+                g = self._enum_member(fr.fi.module, n) or self._class_attr_value(fr.fi.module, fr.fi.cls, n)
+                if g is not None:
+                    return clone(g)
             new = type(n)()
             for f in n._fields:
                 if not hasattr(n, f):
@@ -801,26 +1178,435 @@ class _Sym:
                 r = self._expr_helper(fr, n, st, depth)
                 if r is not None:
                     return r
-            if isinstance(n, ast.Call) and isinstance(n.func, (ast.Name, ast.Attribute)) and (chain(n.func) or "").split(".")[-1].startswith("could_be_"):
-                tg = {t.qualname for t in self.repo.resolve_call(fr.fi, n)}
-                if len(tg) == 1 and next(iter(tg)).startswith("DataChecker.could_be_"):
-                    new.func = ast.Attribute(value=ast.Name(id="DataChecker", ctx=ast.Load()), attr=next(iter(tg)).split(".")[1], ctx=ast.Load())
+            if isinstance(n, ast.Call):
+                self._name_classifier(fr, new)
+                if chain(new.func) == "functools.reduce" and 2 <= len(new.args) <= 3 and not new.keywords \
+                        and not any(isinstance(x, ast.Starred) for x in new.args):
+                    # a fold over a literal sequence is the nested application of the folding function
+                    items = _literal_items(new.args[1])
+                    if items is not None and (items or len(new.args) == 3):
+                        acc = new.args[2] if len(new.args) == 3 else items.pop(0)
+                        for it in items:
+                            if isinstance(it, ast.Call):
+                                self._name_classifier(fr, it)
+                            acc = ast.Call(func=clone(new.args[0]), args=[acc, it], keywords=[])
+                        return acc
+                if (chain(new.func) or "") in _SEQ_FUNCS:
+                    items = _literal_items(new)
+                    if items is not None:
+                        for it in items:
+                            if isinstance(it, ast.Call):
+                                self._name_classifier(fr, it)
+                        return ast.Tuple(elts=items, ctx=ast.Load())
             return new
-        return _Canon2(self.hop_address).visit(sub(e))
+        return _Canon2(self.hop_address, self).visit(sub(e))
+
+    def _property_value(self, fr: _Frame, n: ast.Attribute, st: _St, depth: int) -> ast.AST | None:
+        """`obj.name` where name is a NEW read-only property whose body is one `return <pure expression>`: that expression about obj"""
+        cands = [g for g in self.new_funcs.get(n.attr, []) if g.cls is not None and enclosing_function(g.node) is None]
+        if len(cands) != 1 or n.attr in self.known_names or n.attr in self._stored_attrs() or "*" in self._stored_attrs():
+            return None
+        h = cands[0]
+        if h.decorator_names() != ["property"] or h.is_async or len(h.params()) != 1 or f"{n.attr}.setter" in h.cls.methods \
+                or any(n.attr in c.methods or n.attr in c.attrs for c in h.cls.all_subclasses()):
+            return None
+        body = [x for x in h.node.body if not (isinstance(x, ast.Expr) and isinstance(x.value, ast.Constant))]
+        if len(body) != 1 or not isinstance(body[0], ast.Return) or body[0].value is None:
+            return None
+        st2 = _St()
+        st2.env = {h.params()[0]: self.C(fr, n.value, st, depth + 1)}
+        x = self.C(_Frame(h, None, fr, None), body[0].value, st2, depth + 1)
+        if not self._pure(x):
+            return None
+        self.helpers.add(h)
+        return x
+
+    def _callable_ref(self, x: ast.AST) -> bool:
+        """x names a function / method of the repository or is a lambda (such a value is never None and always truthy)"""
+        if isinstance(x, ast.Lambda):
+            return True
+        if isinstance(x, ast.Call) and chain(x.func) == "functools.partial" and x.args:
+            return True
+        name = x.attr if isinstance(x, ast.Attribute) else x.id if isinstance(x, ast.Name) else None
+        if name is None or chain(x) is None or "(" in chain(x) or "[" in chain(x):
+            return False
+        if isinstance(x, ast.Attribute) and not (isinstance(x.value, ast.Name) and (x.value.id in ("self", "cls") or x.value.id in self.repo.classes)):
+            return False
+        return (name in self.new_funcs or name in self.known_names) and name not in self._stored_attrs()
+
+    def _name_classifier(self, fr: _Frame, call: ast.Call) -> None:
+        """a call that can only run one DataChecker.could_be_* classifier is spelt `DataChecker.could_be_*(..)`"""
+        if isinstance(call.func, (ast.Name, ast.Attribute)) and (chain(call.func) or "").split(".")[-1].startswith("could_be_"):
+            tg = {t.qualname for t in self.repo.resolve_call(fr.fi, call)}
+            if len(tg) == 1 and next(iter(tg)).startswith("DataChecker.could_be_"):
+                call.func = ast.Attribute(value=ast.Name(id="DataChecker", ctx=ast.Load()), attr=next(iter(tg)).split(".")[1], ctx=ast.Load())
+
+    def _lib_ref(self, m, n: ast.AST, st: _St | None = None) -> str | None:
+        """'operator.contains' / 'functools.partial' / 'itertools.chain' when the name / attribute path n denotes that library function
+        in module m (through `from operator import contains`, `import operator as op`, ..)"""
+        parts = []
+        r = n
+        while isinstance(r, ast.Attribute):
+            parts.append(r.attr)
+            r = r.value
+        if not isinstance(r, ast.Name) or (st is not None and r.id in st.env) or len(parts) > 2:
+            return None
+        imp = m.imports.get(r.id)
+        if imp is None or imp[0] not in _LIBS:
+            return None
+        if imp[1] is None:
+            return ".".join([imp[0], *reversed(parts)]) if parts else None
+        return ".".join([imp[0], imp[1], *reversed(parts)])
+
+    @staticmethod
+    def _global_root(n: ast.Attribute, st: _St) -> bool:
+        """the attribute path starts at a name that is not a local of the walked function (or at its own self / cls)"""
+        r = n
+        while isinstance(r, ast.Attribute):
+            r = r.value
+        if not isinstance(r, ast.Name):
+            return False
+        v = st.env.get(r.id)
+        return v is None or (r.id in ("self", "cls") and isinstance(v, ast.Name) and v.id == r.id)
 
     def _module_const(self, fr: _Frame, n: ast.Name) -> ast.AST | None:
-        if n.id in ("True", "False", "None", "self", "cls") or not n.id.isupper():
+        if n.id in ("True", "False", "None", "self", "cls", "data"):
+            return None
+        lib = self._lib_ref(fr.fi.module, n)
+        if lib is not None:
+            return ast.Name(id=lib, ctx=ast.Load())
+        g = self._global_value(fr.fi.module, n.id)
+        if g is not None:
+            return clone(g)
+        if not n.id.isupper():
             return None
         v = self.repo.resolve_const(fr.fi.module, n, fr.fi.cls)
         return None if v is NOCONST or not isinstance(v, tuple) else _lit(v)
 
+    # ---------------------------------------------------------------- module-level tables, precompiled structs, enumerations, records
+    # A module-level name (or class attribute) that is bound exactly once to a literal table / a struct.Struct(fmt) object denotes
+    # that value wherever it is read; members of an enumeration are distinct constants; the constructor of a NamedTuple /
+    # dataclass / SimpleNamespace builds an object whose fields are the constructor's arguments.
+    def _bound_once(self, m, name: str) -> bool:
+        cache = self.__dict__.setdefault("_store_counts", {})
+        if m.relpath not in cache:
+            cnt: dict[str, int] = {}
+            for x in ast.walk(m.tree):
+                if isinstance(x, ast.Name) and isinstance(x.ctx, (ast.Store, ast.Del)):
+                    cnt[x.id] = cnt.get(x.id, 0) + 1
+                elif isinstance(x, (ast.Global, ast.Nonlocal)):
+                    for k in x.names:
+                        cnt[k] = cnt.get(k, 0) + 2
+                elif isinstance(x, (ast.FunctionDef, ast.AsyncFunctionDef, ast.ClassDef)):
+                    cnt[x.name] = cnt.get(x.name, 0) + 1
+                elif isinstance(x, ast.arg):
+                    cnt[x.arg] = cnt.get(x.arg, 0) + 1
+                elif isinstance(x, ast.alias):
+                    k = (x.asname or x.name).split(".")[0]
+                    cnt[k] = cnt.get(k, 0) + 1
+            cache[m.relpath] = cnt
+        return cache[m.relpath].get(name, 0) == 1
+
+    def _stored_attrs_near(self, ci) -> set[str]:
+        """like _stored_attrs, restricted to the modules that can name class ci (its own module and those that import the name):
+        objects of a private record class are built and handled there"""
+        cache = self.__dict__.setdefault("_stored_by_module", {})
+        out: set[str] = set()
+        for m in self.repo.modules.values():
+            if m is not ci.module and ci.name not in m.imports:
+                continue
+            if m.relpath not in cache:
+                names = set()
+                for x in ast.walk(m.tree):
+                    if isinstance(x, ast.Attribute) and isinstance(x.ctx, (ast.Store, ast.Del)):
+                        names.add(x.attr)
+                    elif isinstance(x, ast.Call) and chain(x.func) in ("setattr", "delattr", "object.__setattr__"):
+                        a = x.args[1] if len(x.args) > 1 else None
+                        names.add(a.value if isinstance(a, ast.Constant) and isinstance(a.value, str) else "*")
+                cache[m.relpath] = names
+            out |= cache[m.relpath]
+        return out
+
+    def _stored_attrs(self) -> set[str]:
+        """names of all attributes that are assigned through `<expr>.name = ..` somewhere in the repository"""
+        if "_stored_attr_names" not in self.__dict__:
+            out = set()
+            for m in self.repo.modules.values():
+                for x in ast.walk(m.tree):
+                    if isinstance(x, ast.Attribute) and isinstance(x.ctx, (ast.Store, ast.Del)):
+                        out.add(x.attr)
+                    elif isinstance(x, ast.Call) and chain(x.func) in ("setattr", "delattr", "object.__setattr__"):
+                        for a in x.args[1:2]:
+                            if isinstance(a, ast.Constant) and isinstance(a.value, str):
+                                out.add(a.value)
+                            elif m.relpath.startswith("ipv8/messaging/anonymization/"):
+                                out.add("*")    # (elsewhere the computed names belong to payload / session objects)
+            self._stored_attr_names = out
+        return self._stored_attr_names
+
+    def _global_value(self, m, name: str, depth: int = 0) -> ast.AST | None:
+        """the table / Struct object the module-level name denotes (a self-contained expression), else None"""
+        cache = self.__dict__.setdefault("_globals", {})
+        key = (m.relpath, name)
+        if key in cache:
+            return cache[key]
+        cache[key] = None
+        r = self.repo.resolve_name(m, name) if depth < 6 else None
+        if isinstance(r, tuple) and r[0] == "const":
+            own = next((k for k, v in r[1].constants.items() if v is r[2]), None)
+            if own is not None and self._bound_once(r[1], own) and (r[1] is m or self._bound_once(m, name)):
+                cache[key] = self._table_value(r[1], None, r[2], depth, top=True) or self._scalar_value(r[1], None, own, r[2], depth)
+        return cache[key]
+
+    def _scalar_value(self, m, cls, name: str, e: ast.AST, depth: int) -> ast.AST | None:
+        """a name bound once to a constant (`_MIN_LENGTH = 20`) denotes the constant, one bound to another name / attribute path
+        (`_is_utp = DataChecker.could_be_utp`) denotes that; the exit-flag constants keep their names (the policy atoms are spelt with them)"""
+        if name.startswith("PEER_FLAG"):
+            return None
+        e = strip_cast(e)
+        if isinstance(e, (ast.Name, ast.Attribute)) and chain(e) is not None and "(" not in chain(e) and "[" not in chain(e):
+            if isinstance(e, ast.Name) and e.id == name:
+                return None
+            return self._table_value(m, cls, e, depth + 1)
+        v = self.repo.resolve_const(m, e, cls)
+        if v is NOCONST or isinstance(v, (tuple, float)) or not (v is None or isinstance(v, (bool, int, str, bytes))):
+            return None
+        return _lit(v)
+
+    def _class_attr_value(self, m, cls, e: ast.Attribute) -> ast.AST | None:
+        """`Class.NAME` / `self.NAME` / `cls.NAME` where NAME is a class-level table / Struct object that is never assigned elsewhere"""
+        if not isinstance(e.value, ast.Name):
+            return None
+        ci = cls if e.value.id in ("self", "cls") else self.repo.resolve_name(m, e.value.id)
+        if ci is None or isinstance(ci, (tuple, FuncInfo)) or not hasattr(ci, "lookup_attr"):
+            return None
+        owner = next((c for c in ci.mro() if e.attr in c.attrs or e.attr in c.methods), None)
+        if owner is None or e.attr in owner.methods or e.attr in self._stored_attrs() or "*" in self._stored_attrs():
+            return None
+        if sum(1 for x in owner.node.body for t in ast.walk(x) if isinstance(t, ast.Name) and isinstance(t.ctx, ast.Store) and t.id == e.attr
+               and not isinstance(x, (ast.FunctionDef, ast.AsyncFunctionDef, ast.ClassDef))) != 1:
+            return None
+        if any(e.attr in c.attrs for c in ci.all_subclasses() if c is not owner):
+            return None
+        cache = self.__dict__.setdefault("_globals", {})
+        key = (owner.module.relpath, f"{owner.name}.{e.attr}")
+        if key not in cache:
+            cache[key] = None
+            cache[key] = self._table_value(owner.module, owner, owner.attrs[e.attr], 0, top=True) \
+                or self._scalar_value(owner.module, owner, e.attr, owner.attrs[e.attr], 0)
+        return cache[key]
+
+    def _table_value(self, m, cls, e: ast.AST, depth: int, top: bool = False) -> ast.AST | None:
+        e = strip_cast(e)
+        if _struct_format(e) is not None:
+            return ast.Call(func=ast.Name(id="Struct", ctx=ast.Load()), args=[ast.Constant(value=_struct_format(e))], keywords=[])
+        if isinstance(e, (ast.Tuple, ast.List, ast.Set)):
+            elts = [self._table_value(m, cls, x, depth) for x in e.elts]
+            return None if any(x is None for x in elts) else type(e)(elts=elts, **({} if isinstance(e, ast.Set) else {"ctx": ast.Load()}))
+        if isinstance(e, ast.Dict):
+            ks = [None if k is None else self._table_value(m, cls, k, depth) for k in e.keys]
+            vs = [self._table_value(m, cls, v, depth) for v in e.values]
+            return None if any(k is None for k in ks) or any(v is None for v in vs) else ast.Dict(keys=ks, values=vs)
+        if isinstance(e, ast.Call) and chain(e.func) in ("tuple", "list", "frozenset", "set", "MappingProxyType", "types.MappingProxyType") \
+                and len(e.args) == 1 and not e.keywords and isinstance(strip_cast(e.args[0]), (ast.Tuple, ast.List, ast.Set, ast.Dict)):
+            inner = self._table_value(m, cls, e.args[0], depth)
+            if inner is None:
+                return None
+            return inner if isinstance(inner, ast.Dict) or chain(e.func) in ("tuple", "list") else \
+                ast.Call(func=ast.Name(id=chain(e.func), ctx=ast.Load()), args=[inner], keywords=[])
+        if top:
+            return None                     # only tables and Struct objects are substituted (a scalar constant keeps its name)
+        if isinstance(e, ast.Constant):
+            return ast.Constant(value=e.value)
+        if isinstance(e, ast.Name):
+            if cls is not None and e.id in cls.methods and e.id not in m.functions and e.id not in m.constants:
+                # inside a class body a bare name is the function defined earlier in that body: Class.name
+                return ast.Attribute(value=ast.Name(id=cls.name, ctx=ast.Load()), attr=e.id, ctx=ast.Load())
+            g = self._global_value(m, e.id, depth + 1)
+            return clone(g) if g is not None else ast.Name(id=e.id, ctx=ast.Load())
+        if isinstance(e, ast.Attribute):
+            en = self._enum_member(m, e)
+            if en is not None:
+                return en
+            g = self._class_attr_value(m, cls, e) if depth < 6 else None
+            if g is not None:
+                return clone(g)
+            return clone(e) if chain(e) is not None and "(" not in chain(e) and "[" not in chain(e) else None
+        if isinstance(e, ast.Lambda):
+            return clone(e)
+        v = self.repo.resolve_const(m, e, cls)
+        return None if v is NOCONST else _lit(v)
+
+    def _enum_class(self, m, e: ast.AST):
+        if isinstance(e, ast.Name):
+            ci = self.repo.resolve_name(m, e.id)
+        elif isinstance(e, ast.Attribute):
+            cands = self.repo.classes.get(e.attr, [])
+            ci = cands[0] if len(cands) == 1 else None
+        else:
+            return None
+        if ci is None or isinstance(ci, (tuple, FuncInfo)) or not hasattr(ci, "base_names"):
+            return None
+        cache = self.__dict__.setdefault("_enums", {})
+        if id(ci) not in cache:
+            cache[id(ci)] = None
+            kinds = {b.split(".")[-1] for b in ci.base_names}
+            if (len(ci.base_names) == 1 and kinds <= {"Enum", "IntEnum", "StrEnum"} or len(ci.base_names) == 2 and kinds in ({"str", "Enum"}, {"int", "Enum"})) \
+                    and not any(
+                    k in ci.methods for k in ("__eq__", "__ne__", "__bool__", "__hash__", "__new__", "__init__", "_missing_", "_generate_next_value_")) \
+                    and not ci.node.decorator_list and not ci.all_subclasses():
+                members: dict[str, object] = {}
+                autos = 0
+                ok = True
+                for st in ci.node.body:
+                    if isinstance(st, ast.Assign) and len(st.targets) == 1 and isinstance(st.targets[0], ast.Name):
+                        k = st.targets[0].id
+                        if k.startswith("_") or k in members:
+                            ok = False
+                        elif isinstance(st.value, ast.Call) and chain(st.value.func) in ("auto", "enum.auto") and not st.value.args:
+                            autos += 1
+                            members[k] = len(members) + 1
+                        else:
+                            v = self.repo.resolve_const(ci.module, st.value, ci)
+                            if v is NOCONST or isinstance(v, float):
+                                ok = False
+                            members[k] = v
+                    elif not (isinstance(st, (ast.FunctionDef, ast.AsyncFunctionDef, ast.Pass))
+                              or (isinstance(st, ast.Expr) and isinstance(st.value, ast.Constant))):
+                        ok = False
+                plain = kinds == {"Enum"}
+                try:
+                    distinct = len({(type(v).__name__, v) for v in members.values()}) == len(members)
+                except TypeError:
+                    distinct = False
+                if ok and members and distinct and autos in (0, len(members)) and (plain or autos == 0) \
+                        and not (set(members) & self._stored_attrs()):
+                    cache[id(ci)] = (ci, members, plain)
+        return cache[id(ci)]
+
+    def _enum_member(self, m, e: ast.Attribute) -> ast.AST | None:
+        """`Colour.RED` -> a constant that stands for the member (members of one enumeration are pairwise different objects, equal
+        only to themselves; an IntEnum / StrEnum member behaves as its value); `Colour.RED.name` / `.value` -> the constant"""
+        if e.attr in ("name", "value") and isinstance(e.value, ast.Attribute):
+            en = self._enum_class(m, e.value.value)
+            if en is not None and e.value.attr in en[1]:
+                v = e.value.attr if e.attr == "name" else en[1][e.value.attr]
+                return _lit(v)
+            return None
+        en = self._enum_class(m, e.value)
+        if en is None or e.attr not in en[1]:
+            return None
+        ci, members, plain = en
+        return ast.Constant(value=f"<enum {ci.module.relpath}:{ci.name}.{e.attr}>") if plain else _lit(members[e.attr])
+
+    def _record(self, func: ast.AST):
+        """(field names in constructor order | None for keyword-only, {field: default expr}, is_tuple) when `func` names a record class:
+        typing.NamedTuple / collections.namedtuple / a dataclass without hand-written construction hooks / SimpleNamespace"""
+        c = chain(func)
+        if c is None:
+            return None
+        name = c.split(".")[-1]
+        cache = self.__dict__.setdefault("_records", {})
+        if name in cache:
+            return cache[name]
+        cache[name] = None
+        if name == "SimpleNamespace":
+            cache[name] = (None, {}, False) if not ({"*"} & self._stored_attrs()) else None
+            return cache[name]
+        cands = self.repo.classes.get(name, [])
+        consts = [(m, m.constants[name]) for m in self.repo.modules.values() if name in m.constants]
+        if len(cands) == 1 and not consts:
+            ci = cands[0]
+            is_nt = any(b.split(".")[-1] == "NamedTuple" for b in ci.base_names) and len(ci.base_names) == 1
+            dc = [d for d in ci.node.decorator_list if (chain(d.func if isinstance(d, ast.Call) else d) or "").split(".")[-1] == "dataclass"]
+            if not (is_nt or (dc and len(ci.node.decorator_list) == 1 and not ci.base_names)) or ci.all_subclasses():
+                return None
+            hooks = ("__init__", "__new__", "__post_init__", "__getattr__", "__getattribute__", "__setattr__", "__getitem__", "__eq__", "__bool__")
+            if any(h in ci.methods for h in hooks):
+                return None
+            fields, defaults = [], {}
+            for st in ci.node.body:
+                if isinstance(st, ast.AnnAssign) and isinstance(st.target, ast.Name):
+                    if "ClassVar" in norm(st.annotation) or "InitVar" in norm(st.annotation):
+                        if "InitVar" in norm(st.annotation):
+                            return None
+                        continue
+                    fields.append(st.target.id)
+                    if st.value is not None:
+                        v = st.value
+                        if isinstance(v, ast.Call) and chain(v.func) in ("field", "dataclasses.field"):
+                            kw = {k.arg: k.value for k in v.keywords}
+                            if set(kw) - {"default", "repr", "compare", "hash"} or "default" not in kw:
+                                defaults[st.target.id] = None
+                                continue
+                            v = kw["default"]
+                        defaults[st.target.id] = v if const_value(v) is not NOCONST else None
+            if any(f in ci.methods for f in fields) or not fields:
+                return None
+            frozen = is_nt or any(isinstance(d, ast.Call) and any(k.arg == "frozen" and const_value(k.value) is True for k in d.keywords) for d in dc)
+            if any(k.arg not in ("frozen", "slots", "eq", "repr", "order", "unsafe_hash") for d in dc if isinstance(d, ast.Call) for k in d.keywords) \
+                    or any(isinstance(d, ast.Call) and d.args for d in dc):
+                return None
+            if not frozen and (set(fields) & self._stored_attrs_near(ci) or "*" in self._stored_attrs_near(ci)):
+                return None
+            cache[name] = (fields, defaults, is_nt)
+        elif not cands and len(consts) == 1:
+            m, v = consts[0]
+            if isinstance(v, ast.Call) and chain(v.func) in ("namedtuple", "collections.namedtuple", "NamedTuple", "typing.NamedTuple") and len(v.args) == 2 \
+                    and not [k for k in v.keywords if k.arg != "defaults"] and self._bound_once(m, name):
+                spec = v.args[1]
+                names = None
+                if isinstance(spec, ast.Constant) and isinstance(spec.value, str):
+                    names = spec.value.replace(",", " ").split()
+                elif isinstance(spec, (ast.Tuple, ast.List)) and all(isinstance(x, ast.Constant) and isinstance(x.value, str) for x in spec.elts):
+                    names = [x.value for x in spec.elts]
+                elif isinstance(spec, (ast.Tuple, ast.List)) and all(isinstance(x, ast.Tuple) and len(x.elts) == 2 and isinstance(x.elts[0], ast.Constant)
+                                                                       and isinstance(x.elts[0].value, str) for x in spec.elts):
+                    names = [x.elts[0].value for x in spec.elts]          # NamedTuple("N", [("a", int), ("b", str)])
+                if names and not v.keywords:
+                    cache[name] = (names, {}, True)
+        return cache[name]
+
+    def _record_field(self, call: ast.Call, field) -> ast.AST | None:
+        """the constructor argument that `call`(a record construction).<field> / [<index>] reads"""
+        rec = self._record(call.func)
+        if rec is not None and any(isinstance(a, ast.Starred) for a in call.args):
+            flat = []
+            for a in call.args:                  # K(*(x, y), z) is K(x, y, z)
+                if isinstance(a, ast.Starred) and isinstance(a.value, (ast.Tuple, ast.List)) and not any(isinstance(e, ast.Starred) for e in a.value.elts):
+                    flat.extend(a.value.elts)
+                else:
+                    flat.append(a)
+            call = ast.Call(func=call.func, args=flat, keywords=call.keywords)
+        if rec is None or any(isinstance(a, ast.Starred) for a in call.args) or any(k.arg is None for k in call.keywords):
+            return None
+        fields, defaults, is_nt = rec
+        if fields is None:                       # keyword-only namespace
+            hit = [k.value for k in call.keywords if k.arg == field]
+            return hit[0] if isinstance(field, str) and len(hit) == 1 and not call.args else None
+        if isinstance(field, int):
+            if not is_nt or not -len(fields) <= field < len(fields):
+                return None
+            field = fields[field]
+        if field not in fields or len(call.args) > len(fields) or any(k.arg not in fields for k in call.keywords):
+            return None
+        i = fields.index(field)
+        if i < len(call.args):
+            return call.args[i]
+        hit = [k.value for k in call.keywords if k.arg == field]
+        if hit:
+            return hit[0]
+        d = defaults.get(field)
+        return clone(d) if d is not None else None
+
     def _pure(self, x: ast.AST) -> bool:
         for n in ast.walk(x):
-            if isinstance(n, _IMPURE_NODES):
+            if isinstance(n, _IMPURE_NODES) and not isinstance(n, ast.Starred):      # (unpacking an argument has no effect of its own)
                 return False
             if isinstance(n, ast.Call):
                 c = chain(n.func) or ""
-                if not (c in _SIM_PURE or c.startswith("DataChecker.could_be_") or c.endswith(".get")):
+                if not (c in _SIM_PURE or c.startswith("DataChecker.could_be_") or c.endswith(".get") or _struct_format(n) is not None
+                        or c.startswith(("operator.", "itertools.")) or c == "functools.partial" or self._record(n.func) is not None):
                     return False
         return True
 
@@ -869,7 +1655,7 @@ class _Sym:
         return st.facts[k]
 
     def tv(self, x: ast.AST, st: _St) -> bool | None:
-        x = strip_cast(x)
+        x = _as_cond(x, self)
         if isinstance(x, ast.Constant):
             return bool(x.value)
         if isinstance(x, (ast.Tuple, ast.List)) and not any(isinstance(e, ast.Starred) for e in x.elts):
@@ -924,6 +1710,8 @@ class _Sym:
             fn = _CMP.get(type(x.ops[0]))
             if isinstance(x.ops[0], (ast.Is, ast.IsNot)) and all(v is None or isinstance(v, bool) for v in (a, b)):
                 return (a is b) == isinstance(x.ops[0], ast.Is)
+            if isinstance(x.ops[0], (ast.Is, ast.IsNot)) and all(isinstance(v, str) and v.startswith("<enum ") for v in (a, b)):
+                return (a == b) == isinstance(x.ops[0], ast.Is)          # two members of enumerations: the same object iff the same member
             if isinstance(x.ops[0], (ast.Is, ast.IsNot)) and (a is None or b is None):
                 other = x.comparators[0] if a is None else x.left
                 if _never_none(other):
@@ -966,6 +1754,7 @@ class _Sym:
 
     def assume(self, x: ast.AST, lab: bool, st: _St) -> bool:
         """record that canonical condition x evaluated to lab; False when that contradicts the path so far"""
+        x = _as_cond(x, self)
         t = self.tv(x, st)
         if t is not None:
             return t == lab
@@ -1009,14 +1798,16 @@ class _Sym:
                 return
             st.env[t.id] = val if val is not None and self._pure(val) else self._opaque(fr, t.id, u, st)
         elif isinstance(t, (ast.Tuple, ast.List)):
-            star = any(isinstance(e, ast.Starred) for e in t.elts)
+            star = next((i for i, e in enumerate(t.elts) if isinstance(e, ast.Starred)), None)
             for i, e in enumerate(t.elts):
                 if isinstance(e, ast.Starred):
                     self._bind_target(fr, e.value, None, st, u)
                     continue
                 sub = None
-                if val is not None and not star:
-                    sub = _Canon2(self.hop_address).visit(ast.Subscript(value=clone(val), slice=ast.Constant(value=i), ctx=ast.Load()))
+                if val is not None:
+                    # `a, *rest, z = v`: a is v[0], z is v[-1]
+                    idx = i if star is None or i < star else i - len(t.elts)
+                    sub = _Canon2(self.hop_address, self).visit(ast.Subscript(value=clone(val), slice=ast.Constant(value=idx), ctx=ast.Load()))
                 self._bind_target(fr, e, sub, st, u)
         else:
             self._kill(st, norm(self.C(fr, t, st)))
@@ -1044,8 +1835,8 @@ class _Sym:
                         if "self." in k[1] or (k[2] and "self." in k[2]):
                             st.facts.pop(k)
                             st.fobj.pop(k, None)
-                elif isinstance(n, ast.Call) and isinstance(n.func, ast.Attribute) and n.func.attr == "enable" and not n.args:
-                    r = self.C(fr, n.func.value, st)
+                elif isinstance(n, ast.Call) and self._enable_receiver(fr, n, st) is not None:
+                    r = self._enable_receiver(fr, n, st)
                     en = ast.Attribute(value=r, attr="enabled", ctx=ast.Load())
                     self._kill(st, norm(en), store=False)
                     if commit:
@@ -1060,13 +1851,21 @@ class _Sym:
             if not commit:
                 continue
             for n in _all_exprs(e):         # conditionally evaluated enable(): unknown afterwards
-                if isinstance(n, ast.Call) and isinstance(n.func, ast.Attribute) and n.func.attr == "enable" and not n.args \
-                        and n not in set(_uncond(e)):
-                    self._kill(st, norm(ast.Attribute(value=self.C(fr, n.func.value, st), attr="enabled", ctx=ast.Load())), store=False)
+                if isinstance(n, ast.Call) and n not in set(_uncond(e)) and self._enable_receiver(fr, n, st) is not None:
+                    self._kill(st, norm(ast.Attribute(value=self._enable_receiver(fr, n, st), attr="enabled", ctx=ast.Load())), store=False)
 
-    @staticmethod
-    def _unknown_effects(c: ast.Call) -> bool:
+    def _unknown_effects(self, c: ast.Call) -> bool:
         ch = chain(c.func) or ""
+        f = enclosing_function(c)
+        info = getattr(f, "_info", None) if f is not None else None
+        if info is not None and (self._lib_ref(info.module, c.func) or "").startswith(("operator.", "itertools.", "functools.partial")):
+            return False                    # pure library functions (what a partial / methodcaller later calls is judged where it is called)
+        if isinstance(c.func, ast.Attribute) and c.func.attr in ("unpack_from", "unpack") and call_may_raise(c) \
+                and info is not None and isinstance(c.func.value, (ast.Name, ast.Attribute)) and chain(c.func.value) is not None:
+            v = self._global_value(info.module, c.func.value.id) if isinstance(c.func.value, ast.Name) else \
+                self._class_attr_value(info.module, info.cls, c.func.value)
+            if v is not None and _struct_format(v) is not None:
+                return False                # reading through a precompiled struct.Struct
         if not call_may_raise(c) or ch in _SIM_PURE or ch.startswith("DataChecker.could_be_") or ch.endswith((".get", ".enable")):
             return False
         return ch not in ("UDPv4Address", "UDPv6Address", "DomainAddress")
@@ -1138,6 +1937,13 @@ class _Sym:
             tag = self.site_of(c)
             if tag:
                 self._at_site(fr, c, tag, st)
+            elif isinstance(c, ast.Call) and self._indirect(c, st):
+                # a call through a local that holds a bound method / functools.partial / operator.methodcaller / lambda (or through
+                # such an expression directly) is the call it denotes
+                eff = self.C(fr, c, st)
+                tag = self.site_of(eff) if isinstance(eff, ast.Call) else None
+                if tag:
+                    self._at_site(fr, c, tag, st, effective=eff)
         for g in [n for e in exprs for n in _all_exprs_with_comprehensions(e) if isinstance(n, (ast.GeneratorExp, ast.ListComp))]:
             self._sites_in_comprehension(fr, g, st, u)
         has_exc = any(l == "exc" for _, l in u.succ)
@@ -1409,7 +2215,27 @@ class _Sym:
             for n in inner:
                 self._at_site(fr, n, self.site_of(n), st2, through=g)
 
-    def _at_site(self, fr: _Frame, call: ast.Call, tag: str, st: _St, through: ast.AST | None = None) -> None:
+    def _enable_receiver(self, fr: _Frame, n: ast.Call, st: _St) -> ast.AST | None:
+        """the (canonical) object on which the call runs enable(): `x.enable()`, or the same through a bound callable"""
+        if isinstance(n.func, ast.Attribute) and n.func.attr == "enable" and not n.args:
+            return self.C(fr, n.func.value, st)
+        if self._indirect(n, st):
+            eff = self.C(fr, n, st)
+            if isinstance(eff, ast.Call) and isinstance(eff.func, ast.Attribute) and eff.func.attr == "enable" and not eff.args and not eff.keywords:
+                return eff.func.value
+        return None
+
+    @staticmethod
+    def _indirect(c: ast.Call, st: _St) -> bool:
+        f = strip_cast(c.func)
+        if isinstance(f, ast.Call):
+            return True
+        if isinstance(f, ast.Name):
+            v = st.env.get(f.id)
+            return isinstance(v, (ast.Call, ast.Attribute, ast.Lambda))
+        return False
+
+    def _at_site(self, fr: _Frame, call: ast.Call, tag: str, st: _St, through: ast.AST | None = None, effective: ast.Call | None = None) -> None:
         st2 = st
         cur, p = call, parent(call)
         pre: list[tuple[ast.AST, bool]] = []
@@ -1427,7 +2253,7 @@ class _Sym:
             for v, pol in pre:
                 if not self.assume(self.C(fr, v, st2), pol, st2):
                     return                  # not evaluated on this path
-        r = dict(self.on_site(self, fr, call, tag, st2))
+        r = dict(self.on_site(self, fr, effective if effective is not None else call, tag, st2))
         self.results.setdefault(id(call), []).append(r)
         self.site_nodes[id(call)] = (fr, call, tag)
         if not all(r.values()) or id(call) not in self.site_facts:
@@ -1440,23 +2266,40 @@ class _Sym:
         if fr.depth >= _FOLLOW_DEPTH or not self.new_funcs:
             return []
         f = strip_cast(call.func)
+        canonical = True
         if isinstance(f, ast.Name) and f.id in st.env:
             todo = [st.env[f.id]]
-        elif isinstance(f, ast.Subscript):
+        elif isinstance(f, (ast.Subscript, ast.IfExp, ast.BoolOp)) or (isinstance(f, ast.Call) and isinstance(f.func, ast.Attribute) and f.func.attr == "get"):
             todo = [self.C(fr, f, st)]
         else:
             todo = [f]
+            canonical = False
+        refs = self.__dict__.setdefault("_callee_refs", {})
         out: list[FuncInfo] = []
         while todo:
             o = todo.pop()
+            if isinstance(o, ast.Call) and isinstance(o.func, ast.Attribute) and o.func.attr == "get" and len(o.args) == 2 and not o.keywords:
+                todo.extend([ast.Subscript(value=o.func.value, slice=o.args[0], ctx=ast.Load()), o.args[1]])     # table.get(key, default)
+                continue
             if isinstance(o, ast.Subscript) and isinstance(o.value, ast.Dict):
-                todo.extend(v for v in o.value.values if v is not None)      # a dispatch table denotes the set of its values
+                # a dispatch table denotes the set of its values - those whose key the subscript can equal on this path
+                for k, v in zip(o.value.keys, o.value.values):
+                    if v is None:
+                        continue
+                    if k is not None and self.tv(_Canon2(self.hop_address, self).visit_Compare(
+                            ast.Compare(left=clone(o.slice), ops=[ast.Eq()], comparators=[clone(k)])), st) is False:
+                        continue
+                    todo.append(v)
                 continue
             if isinstance(o, ast.Subscript) and isinstance(o.value, (ast.Tuple, ast.List)):
                 todo.extend(o.value.elts)
                 continue
             if isinstance(o, ast.IfExp):
-                todo.extend([o.body, o.orelse])
+                t = self.tv(o.test, st)
+                todo.extend([o.body, o.orelse] if t is None else [o.body if t else o.orelse])
+                continue
+            if isinstance(o, ast.BoolOp):
+                todo.extend(o.values)
                 continue
             name = o.attr if isinstance(o, ast.Attribute) else o.id if isinstance(o, ast.Name) else None
             cands = self.new_funcs.get(name or "", [])
@@ -1480,6 +2323,8 @@ class _Sym:
                 continue
             if g not in out:
                 out.append(g)
+                if canonical:
+                    refs[(self._oid(call), id(g.node))] = o      # the (canonical) expression that named the callee: _bind takes the receiver from it
         return out
 
     def _bind(self, fr: _Frame, h: FuncInfo, call: ast.Call, st: _St) -> dict | None:
@@ -1492,7 +2337,10 @@ class _Sym:
         nested = enclosing_function(h.node) is not None
         is_method = h.cls is not None and not nested and "staticmethod" not in h.decorator_names()
         f = strip_cast(call.func)
-        if isinstance(f, ast.Name) and f.id in st.env:
+        ref = self.__dict__.get("_callee_refs", {}).get((self._oid(call), id(h.node)))
+        if ref is not None:
+            recv = clone(ref.value) if isinstance(ref, ast.Attribute) else None      # an entry of a table / a branch of a ternary
+        elif isinstance(f, ast.Name) and f.id in st.env:
             f = st.env[f.id]                     # a local that holds the callable (already canonical)
             recv = clone(f.value) if isinstance(f, ast.Attribute) else None
         elif isinstance(f, ast.Attribute):
@@ -1543,7 +2391,65 @@ class _Sym:
 
 
 # ------------------------------------------------------------------------------------------ policy
-def _table_rows(ctx: Ctx, fi: FuncInfo, atoms: dict[str, list[tuple]], ingredients: tuple[str, ...]):
+class _PolicySource(Exception):
+    """is_allowed reads the exit flags from somewhere else than the node's configured flags"""
+
+    def __init__(self, attr: str, writer: str, value: str, cond: str) -> None:
+        super().__init__(attr)
+        self.attr, self.writer, self.value, self.cond = attr, writer, value, cond
+
+
+def _flag_snapshot(ctx: Ctx, fi: FuncInfo, cond: ast.AST) -> _PolicySource | None:
+    """cond tests an exit-flag constant for membership in a value that is (on some evaluation) a plain attribute of the socket which
+    the socket's own methods fill with a constructed copy (frozenset(..), set(..), tuple(..), a comprehension): a snapshot of the
+    flags taken at some earlier moment - not a re-spelling of `self.overlay.settings.peer_flags`, whose current content is the policy"""
+    def alternatives(e: ast.AST):
+        e = strip_cast(e)
+        if isinstance(e, ast.IfExp):
+            yield from alternatives(e.body)
+            yield from alternatives(e.orelse)
+        elif isinstance(e, ast.BoolOp):
+            for v in e.values:
+                yield from alternatives(v)
+        elif isinstance(e, ast.Call) and chain(e.func) in ("set", "frozenset", "tuple", "list") and len(e.args) == 1 and not e.keywords:
+            yield from alternatives(e.args[0])
+        else:
+            yield e
+    for n in ast.walk(cond):
+        if not (isinstance(n, ast.Compare) and len(n.ops) == 1 and isinstance(n.ops[0], (ast.In, ast.NotIn))
+                and isinstance(n.left, ast.Name) and n.left.id.startswith("PEER_FLAG_EXIT")):
+            continue
+        for alt in alternatives(n.comparators[0]):
+            if not (isinstance(alt, ast.Attribute) and isinstance(alt.value, ast.Name) and alt.value.id == "self") or fi.cls is None:
+                continue
+            if fi.cls.lookup(alt.attr) is not None or fi.cls.lookup_attr(alt.attr) is not None:
+                continue                    # a property / class-level value: not a stored copy
+            for m, f, a in ctx.repo.attribute_uses(alt.attr):
+                st = parent(a)
+                if isinstance(a.ctx, ast.Store) and f is not None and f.cls is not None and fi.cls in f.cls.mro() + f.cls.all_subclasses() \
+                        and isinstance(a.value, ast.Name) and a.value.id == "self" and isinstance(st, (ast.Assign, ast.AnnAssign)) \
+                        and st.value is not None and isinstance(strip_cast(st.value), (ast.Call, ast.SetComp, ast.ListComp, ast.GeneratorExp, ast.BinOp)) \
+                        and "peer_flags" in norm(st.value):
+                    return _PolicySource(alt.attr, f.qualname, norm(st.value), norm(n))
+    return None
+
+
+def _unknown_leaves(sym: _Sym, x: ast.AST, st: _St):
+    """the sub-expressions of x (below and / or / not / ternaries) whose truth value the state does not determine"""
+    x = _as_cond(x, sym)
+    if isinstance(x, ast.BoolOp):
+        for v in x.values:
+            yield from _unknown_leaves(sym, v, st)
+    elif isinstance(x, ast.UnaryOp) and isinstance(x.op, ast.Not):
+        yield from _unknown_leaves(sym, x.operand, st)
+    elif isinstance(x, ast.IfExp):
+        for v in (x.test, x.body, x.orelse):
+            yield from _unknown_leaves(sym, v, st)
+    elif sym.tv(x, st) is None:
+        yield x
+
+
+def _table_rows(ctx: Ctx, fi: FuncInfo, atoms: dict[str, list[tuple]], ingredients: tuple[str, ...], on_guess=None):
     """(assignment, set of truth values fi can return under it) for all assignments of the named atoms; each atom is
     given by the fact keys of its accepted spellings.  The function is walked path by path (loops over literal tables,
     any()/all(), flags, ternaries, early returns and new helpers included)."""
@@ -1557,6 +2463,16 @@ def _table_rows(ctx: Ctx, fi: FuncInfo, atoms: dict[str, list[tuple]], ingredien
             # a condition outside the atoms: a possible re-spelling of an atom cannot be judged; anything else is a
             # dependency the documented table does not have (both outcomes are possible)
             guessed = [a for a in [*st.assumed, *([norm(ret)] if t is None else [])] if any(i in a for i in ingredients)]
+            if t is None and not guessed:
+                # the returned value could not be evaluated: an operation the walk does not understand applied to the atoms is
+                # undecided; a value that does not involve the atoms at all is a dependency the table does not have (below)
+                texts = {x for ks in atoms.values() for k in ks for x in k[1:] if x}
+                for leaf in _unknown_leaves(sym, ret, st):
+                    tl = norm(leaf)
+                    if any(x in tl and x != tl for x in texts):
+                        raise AnalysisError(f"undecided: {fi.qualname} combines its atoms in `{tl[:90]}`, which the walk cannot evaluate")
+            if guessed and on_guess is not None:
+                on_guess([x for x in [*[c for c, _ in st.trail], *([ret] if t is None else [])] if any(i in norm(x) for i in ingredients)])
             if guessed:
                 raise AnalysisError(f"undecided: {fi.qualname} tests `{guessed[0][:90]}`, not one of the recognised spellings of its atoms")
             got |= {True, False} if t is None else {t}
@@ -1585,12 +2501,26 @@ def rule_policy_table(ctx: Ctx) -> None:
                 ("truthy", f"{data}.startswith({prefix})", None)],
     }
     bad = []
-    for env, got in _table_rows(ctx, fi, atoms, (data, "peer_flags", "get_prefix", "could_be_", "PEER_FLAG")):
-        want = bool((env["bt"] and env["BT"]) or (env["v8"] and env["V8"]) or (env["v8"] and env["own"]))
-        ok = got == {want}
-        ctx.instance("policy-table", fi.where, f"row {env} -> {sorted(got)} (spec {want})", ok=ok)
-        if not ok:
-            bad.append((env, sorted(got), want))
+
+    def on_guess(conds: list[ast.AST]) -> None:
+        for c in conds:
+            src = _flag_snapshot(ctx, fi, c)
+            if src is not None:
+                raise src
+    try:
+        for env, got in _table_rows(ctx, fi, atoms, (data, "peer_flags", "get_prefix", "could_be_", "PEER_FLAG"), on_guess):
+            want = bool((env["bt"] and env["BT"]) or (env["v8"] and env["V8"]) or (env["v8"] and env["own"]))
+            ok = got == {want}
+            ctx.instance("policy-table", fi.where, f"row {env} -> {sorted(got)} (spec {want})", ok=ok)
+            if not ok:
+                bad.append((env, sorted(got), want))
+    except _PolicySource as src:
+        # the flags must be the node's CURRENT configuration: is_allowed runs per packet precisely so that a withdrawn flag stops
+        # traffic on already open exit sockets
+        ctx.violation("policy-table", fi, fi.node,
+                      f"is_allowed decides `{src.cond[:120]}` on self.{src.attr}, a copy of the exit flags that {src.writer} stored "
+                      f"(`self.{src.attr} = {src.value[:80]}`), instead of the node's configured flags {FLAGS}: a flag that is withdrawn "
+                      "after the copy was taken keeps being honoured, so the socket emits (and tunnels back) traffic the exit policy forbids")
     if bad:
         env, got, want = bad[0]
         ctx.violation("policy-table", fi, fi.node,
@@ -1694,6 +2624,39 @@ def _datagram_sim(ctx: Ctx) -> _Sym:
     return _sim(ctx, "datagram_received", lambda: _Sym(ctx, fi, _site_tag, on_site))
 
 
+def _tunnel_data_sim(ctx: Ctx) -> _Sym | None:
+    """TunnelExitSocket.tunnel_data walked for its hand-over to the overlay (send_data): is the exit policy established there?"""
+    fi = ctx.repo.method("TunnelExitSocket", "tunnel_data", ES)
+    if fi is None or len(fi.params()) < 3:
+        return None
+
+    def tag(n: ast.AST) -> str | None:
+        return "send_data" if isinstance(n, ast.Call) and call_name(n) == "send_data" else None
+
+    def on_site(sym: _Sym, fr: _Frame, c: ast.Call, tag_: str, st: _St) -> dict:
+        d = arg(c, 4, "data")
+        xd = sym.C(fr, d, st) if d is not None else None
+        return {"gate": _root_param(sym, xd) == fi.params()[2] and not local_defs(fi, fi.params()[2]) and _allowed_on(st, _root_param(sym, xd))}
+    return _sim(ctx, "tunnel_data", lambda: _Sym(ctx, fi, tag, on_site))
+
+
+def _forwarder_sims(ctx: Ctx) -> list[_Sym]:
+    """datagram_received_ipv4 / _ipv6 walked for their forward to datagram_received"""
+    out = []
+    for name in ("datagram_received_ipv4", "datagram_received_ipv6"):
+        fi = ctx.repo.method("TunnelExitSocket", name, ES)
+
+        def tag(n: ast.AST) -> str | None:
+            return "forward" if isinstance(n, ast.Call) and chain(n.func) == "self.datagram_received" else None
+
+        def on_site(sym: _Sym, fr: _Frame, c: ast.Call, tag_: str, st: _St, fi=fi) -> dict:
+            d = arg(c, 0, "data")
+            xd = sym.C(fr, d, st) if d is not None else None
+            return {"gate": _root_param(sym, xd) == fi.params()[1] and not local_defs(fi, fi.params()[1]) and _allowed_on(st, _root_param(sym, xd))}
+        out.append(_sim(ctx, name, lambda fi=fi, tag=tag, on_site=on_site: _Sym(ctx, fi, tag, on_site)))
+    return out
+
+
 def _on_data_sim(ctx: Ctx) -> _Sym:
     fi = ctx.repo.method("TunnelCommunity", "on_data", TC)
 
@@ -1755,6 +2718,11 @@ def _exit_data_sim(ctx: Ctx) -> _Sym:
             out["known"] = (st.known("in", cid, "self.exit_sockets") is True or st.known("truthy", reg) is True
                             or st.known("is", reg, "None") is False)
             out["enabled"] = enabled
+            # (the null-destination guard may live here instead of in the caller: exit_data is only called from on_data)
+            a = arg(c, 1, "destination")
+            xa = sym.C(fr, a, st) if a is not None else None
+            out["null"] = len(params) > 3 and isinstance(xa, ast.Name) and xa.id == params[3] and not local_defs(ex, params[3]) \
+                and _not_null_on(st, xa)
         return out
     return _sim(ctx, "exit_data", lambda: _Sym(ctx, ex, _site_tag, on_site))
 
@@ -1781,8 +2749,38 @@ def _via_helper(ctx: Ctx, sym: _Sym, fi: FuncInfo | None, c: ast.Call) -> bool:
             if isinstance(p, (ast.Tuple, ast.List, ast.Dict, ast.Assign, ast.IfExp)) and walked is not None \
                     and (walked == sym.fi or walked in sym.helpers):
                 continue
+            if walked is None and _table_only_read_by(ctx, n, sym):
+                continue
             return False
     return True
+
+
+def _table_only_read_by(ctx: Ctx, entry: ast.AST, sym: _Sym) -> bool:
+    """entry is an element of a literal table assigned (once) to a module-level / class-level name, and that name is read only inside
+    the functions the walk went through (which followed every call made through the table)"""
+    q = entry
+    while parent(q) is not None and isinstance(parent(q), (ast.Tuple, ast.List, ast.Dict, ast.Set)):
+        q = parent(q)
+    st = parent(q)
+    if q is entry or not (isinstance(st, (ast.Assign, ast.AnnAssign)) and st.value is q and enclosing_function(st) is None):
+        return False
+    tgts = st.targets if isinstance(st, ast.Assign) else [st.target]
+    if len(tgts) != 1 or not isinstance(tgts[0], ast.Name):
+        return False
+    name = tgts[0].id
+    reads = 0
+    for m in ctx.repo.modules.values():
+        for n in ast.walk(m.tree):
+            if (isinstance(n, ast.Name) and n.id == name) or (isinstance(n, ast.Attribute) and n.attr == name):
+                if n is tgts[0]:
+                    continue
+                if not isinstance(n.ctx, ast.Load):
+                    return False
+                w = ctx.repo.function_of(n)
+                if w is None or not (w == sym.fi or w in sym.helpers):
+                    return False
+                reads += 1
+    return reads > 0
 
 
 def _unwalked(sym: _Sym, fi: FuncInfo, tag: str) -> None:
@@ -1829,6 +2827,10 @@ def rule_gates(ctx: Ctx) -> None:
             if ch == "self.sendto":
                 ok = fi.qualname.startswith("TunnelExitSocket.")
                 why = "self.sendto used outside TunnelExitSocket"
+            elif isinstance(c.func, ast.Attribute) and id(c) not in sym.results and id(c) not in xsym.results and _own_socket(ctx, fi, c.func.value):
+                # a callback object / function the socket made for itself re-enters the socket's own sendto (gated like any other call)
+                ok = True
+                why = ""
             elif "exit_sockets" in ch or _is_exit_socket_alias(fi, c) or id(c) in xsym.results:
                 ok = fi.qualname == "TunnelCommunity.exit_data" or _via_helper(ctx, xsym, fi, c)
                 why = "exit_socket.sendto called outside TunnelCommunity.exit_data (previous-hop / null-destination checks bypassed)"
@@ -1836,12 +2838,20 @@ def rule_gates(ctx: Ctx) -> None:
                 ok = fi.qualname == "TunnelExitSocket.sendto" or _via_helper(ctx, sym, fi, c)
                 why = "a transport's sendto is called outside TunnelExitSocket.sendto (exit policy bypassed)"
             ctx.check(ok, "gate-out.who", fi, c, f"sendto caller {fi.qualname}: {ch}", why)
+    for s_ in (sym, xsym):
+        for fr, c, t in s_.site_nodes.values():
+            if t in ("emit", "requeue") and call_name(c) != "sendto":
+                # a send spelt through a bound callable (partial / methodcaller / local alias): found by the walk, so inside the gated function
+                n += 1
+                ctx.check(True, "gate-out.who", fr.fi, c, f"sendto through a bound callable in {fr.fi.qualname}")
     ctx.floor("gate-out.who", n, 4)
+    # (a callback object the socket built around its own `self` - the class form of a nested closure - counts as the socket itself;
+    #  a sendto on the transport from there is still reported by the caller rule above)
     for m, fi, a in repo.attribute_uses("transport_ipv4"):
-        ctx.check(fi is not None and fi.qualname.startswith("TunnelExitSocket."), "gate-out.who", fi or m.relpath, a,
+        ctx.check(fi is not None and (fi.qualname.startswith("TunnelExitSocket.") or _own_socket(ctx, fi, a.value)), "gate-out.who", fi or m.relpath, a,
                   "transport_ipv4 used only inside TunnelExitSocket", "exit transport accessed from outside TunnelExitSocket")
     for m, fi, a in repo.attribute_uses("transport_ipv6"):
-        ctx.check(fi is not None and fi.qualname.startswith("TunnelExitSocket."), "gate-out.who", fi or m.relpath, a,
+        ctx.check(fi is not None and (fi.qualname.startswith("TunnelExitSocket.") or _own_socket(ctx, fi, a.value)), "gate-out.who", fi or m.relpath, a,
                   "transport_ipv6 used only inside TunnelExitSocket", "exit transport accessed from outside TunnelExitSocket")
 
     # ---- inbound
@@ -1849,8 +2859,21 @@ def rule_gates(ctx: Ctx) -> None:
     dsym = _datagram_sim(ctx)
     _unwalked(dsym, dr, "tunnel")
     td = ctx.anchor(dsym.sites("tunnel"), "tunnel_data call reached from datagram_received")
+    # The filter sits in datagram_received in front of the call - or one step further in (at the top of tunnel_data, whose only
+    # caller this is) - or one step further out (in both transport callbacks, the only callers of datagram_received).
+    tsym = _tunnel_data_sim(ctx)
+    in_callee = tsym is not None and bool(tsym.sites("send_data")) and all(tsym.verdict(c2, "gate") for _, c2 in tsym.sites("send_data"))
+    fsyms = _forwarder_sims(ctx)
+    in_callers = not local_defs(dr, dr.params()[1]) and all(f.sites("forward") and all(f.verdict(c2, "gate") for _, c2 in f.sites("forward")) for f in fsyms) \
+        and all(fi2 is not None and (fi2.qualname in ("TunnelExitSocket.datagram_received_ipv4", "TunnelExitSocket.datagram_received_ipv6")
+                                     or any(fi2 in f.helpers for f in fsyms))
+                for m2, fi2, c2 in repo.callers_of_name("datagram_received") if chain(c2.func) == "self.datagram_received" and m2.relpath == ES
+                and fi2 is not None and fi2.cls is not None and fi2.cls.name == "TunnelExitSocket")
     for fr, c in td:
-        ctx.check(dsym.verdict(c, "gate"), "gate-in", fr.fi, c, "tunnel_data(source, data) only on paths with a truthy is_allowed(data) on the same data",
+        d = arg(c, 1, "data")
+        same = d is not None and _param_root(fr.fi, d) == dr.params()[1] if fr.fi == dr else False
+        moved = (in_callee and same) or (in_callers and same)
+        ctx.check(dsym.verdict(c, "gate") or moved, "gate-in", fr.fi, c, "tunnel_data(source, data) only on paths with a truthy is_allowed(data) on the same data",
                   "data from the outside can enter the tunnel without passing the exit policy", dsym.site_facts.get(id(c), []))
     for m, fi, c in repo.callers_of_name("tunnel_data"):
         if chain(c.func) == "self.tunnel_data" and fi is not None and fi.cls is not None and fi.cls.name == "TunnelExitSocket":
@@ -1864,7 +2887,7 @@ def rule_gates(ctx: Ctx) -> None:
         f2 = repo.method("TunnelExitSocket", name, ES)
         fw = calls(f2, "self.datagram_received")
         # anything that may have an effect besides the forward (logging / len / str / address constructors have none here)
-        others = [c for c in calls(f2) if chain(c.func) not in ("self.datagram_received", "UDPv4Address", "UDPv6Address")
+        others = [c for c in calls(f2) if chain(c.func) not in ("self.datagram_received", "UDPv4Address", "UDPv6Address", "self.is_allowed")
                   and call_may_raise(c) and not _pure_value_method(f2, c)]
         ctx.check(bool(fw) and not others, "gate-in", f2, f2.node, f"{name} only forwards to datagram_received",
                   f"{name} does something other than forwarding to the gated datagram_received")
@@ -1891,6 +2914,148 @@ def _pure_value_method(fi: FuncInfo, c: ast.Call) -> bool:
     return isinstance(root, (ast.Name, ast.Constant)) and not (isinstance(root, ast.Name) and root.id in ("self", "cls"))
 
 
+def _reviewed_functions() -> dict:
+    from ..localnames import load_table
+    return load_table()
+
+
+def _socket_self_at(ctx: Ctx, site: ast.AST, e: ast.AST | None) -> bool:
+    """e is the name `self` of a TunnelExitSocket method (read in the method itself or in a function nested in it)"""
+    if not (isinstance(e, ast.Name) and e.id == "self"):
+        return False
+    f = enclosing_function(site)
+    while f is not None and "self" not in [a.arg for a in f.args.posonlyargs + f.args.args + f.args.kwonlyargs]:
+        if isinstance(f, ast.Lambda) or any(isinstance(t, ast.Name) and t.id == "self" and isinstance(t.ctx, ast.Store) for t in walk_no_nested(f)):
+            return False
+        f = enclosing_function(f)
+    info = getattr(f, "_info", None) if f is not None else None
+    return info is not None and info.cls is not None and info.cls.name == "TunnelExitSocket" and info.module.relpath == ES \
+        and parent(f) is info.cls.node and f.args.args[:1] and f.args.args[0].arg == "self" and "staticmethod" not in info.decorator_names() \
+        and "classmethod" not in info.decorator_names() and not local_defs(info, "self")
+
+
+def _bound_argument(fn: ast.AST, call: ast.Call, param: str, skip: int, bound_first: int = 0) -> ast.AST | None:
+    """the argument expression `call` passes for parameter `param` of function node fn (skip: leading parameters bound implicitly)"""
+    if any(isinstance(a, ast.Starred) for a in call.args) or any(k.arg is None for k in call.keywords):
+        return None
+    pos = [a.arg for a in fn.args.posonlyargs + fn.args.args][skip:]
+    args = call.args[bound_first:]
+    if param in pos and pos.index(param) < len(args):
+        return args[pos.index(param)]
+    hit = [k.value for k in call.keywords if k.arg == param]
+    return hit[0] if len(hit) == 1 else None
+
+
+def _only_called(ctx: Ctx, name: str, accept) -> bool:
+    """every mention of `name` in the repository is the callee of a call (or the first argument of functools.partial) that
+    accept(call, partial: bool) approves, or sits in an annotation / is the definition itself"""
+    for m in ctx.repo.modules.values():
+        for n in ast.walk(m.tree):
+            if not ((isinstance(n, ast.Name) and n.id == name and isinstance(n.ctx, ast.Load)) or (isinstance(n, ast.Attribute) and n.attr == name)):
+                continue
+            p = parent(n)
+            if isinstance(p, ast.Call) and p.func is n:
+                if not accept(p, False):
+                    return False
+                continue
+            if isinstance(p, ast.Call) and chain(p.func) in ("partial", "functools.partial") and p.args and p.args[0] is n:
+                if not accept(p, True):
+                    return False
+                continue
+            a, q = n, p
+            in_annotation = False
+            while q is not None and not isinstance(q, ast.stmt):
+                if (isinstance(q, ast.arg) and q.annotation is a) or (isinstance(q, (ast.FunctionDef, ast.AsyncFunctionDef)) and q.returns is a):
+                    in_annotation = True
+                a, q = q, parent(q)
+            if isinstance(q, ast.AnnAssign) and q.annotation is a:
+                in_annotation = True
+            if isinstance(q, (ast.FunctionDef, ast.AsyncFunctionDef)) and (q.returns is a or any(
+                    x.annotation is not None and any(y is n for y in ast.walk(x.annotation)) for x in ast.walk(q.args) if isinstance(x, ast.arg))):
+                in_annotation = True
+            if not in_annotation:
+                return False
+    return True
+
+
+def _own_socket(ctx: Ctx, fi: FuncInfo | None, e: ast.AST) -> bool:
+    """In function fi, expression e always denotes the TunnelExitSocket that created the object / bound the callable fi belongs to:
+    fi lives in a class (or is a function) the reviewed tree does not have, which is only ever constructed (called, wrapped in
+    functools.partial) inside TunnelExitSocket's own methods with that method's `self` in the position e reads.  Calling
+    <e>.sendto(..) is then the socket re-entering its own gated sendto, exactly like the nested closure that captured `self`."""
+    if fi is None or fi.module.relpath != ES:
+        return False
+    table = _reviewed_functions().get(ES)
+    if table is None or fi.qualname in table:
+        return False
+    x = _expand(fi, e)
+    # (a) a parameter of a new function / method that every caller binds to its own `self`
+    if isinstance(x, ast.Name) and x.id in fi.params() and not local_defs(fi, x.id) and x.id not in ("self", "cls"):
+        if enclosing_function(fi.node) is not None:
+            return False
+        is_method = fi.cls is not None and "staticmethod" not in fi.decorator_names()
+        if fi.cls is not None and (fi.cls.all_subclasses() or len([c for c in ctx.repo.all_classes() if fi.name in c.methods]) != 1):
+            return False
+
+        def accept(call: ast.Call, partial: bool) -> bool:
+            if is_method:
+                recv = call.args[0] if partial else call.func
+                if not (isinstance(recv, ast.Attribute) and isinstance(recv.value, ast.Name)):
+                    return False
+            a = _bound_argument(fi.node, call, x.id, 1 if is_method else 0, 1 if partial else 0)
+            return a is not None and _socket_self_at(ctx, call, a)
+        return _only_called(ctx, fi.name, accept)
+    # (b) an attribute of a new carrier class that its constructor fills from a parameter every construction binds to `self`
+    if not (isinstance(x, ast.Attribute) and isinstance(x.value, ast.Name) and x.value.id == "self" and fi.cls is not None
+            and fi.node.args.args[:1] and fi.node.args.args[0].arg == "self" and not local_defs(fi, "self")):
+        return False
+    k = fi.cls
+    if k.name == "TunnelExitSocket" or k.all_subclasses() or k.bases or any(f"{k.name}.{m}" in table for m in k.methods) \
+            or len(ctx.repo.classes.get(k.name, [])) != 1 or parent(k.node) is not k.module.tree:
+        return False
+    if any(b.split(".")[-1] not in ("object", "NamedTuple") for b in k.base_names):
+        return False
+    attr = x.attr
+    init = k.methods.get("__init__")
+    param = None
+    stores = [(f, n) for m, f, n in ctx.repo.attribute_uses(attr) if isinstance(n.ctx, (ast.Store, ast.Del))
+              # (`self.<attr> = ..` in a method of an unrelated class writes another object)
+              and not (isinstance(n.value, ast.Name) and n.value.id == "self" and f is not None and f.cls is not None and f.cls is not k
+                       and k not in f.cls.mro() and enclosing_function(f.node) is None)]
+    if init is not None:
+        own = [n for f, n in stores if f == init and isinstance(n.value, ast.Name) and n.value.id == "self"]
+        if len(stores) != 1 or len(own) != 1 or "__new__" in k.methods or "__setattr__" in k.methods or "__getattr__" in k.methods:
+            return False
+        st = parent(own[0])
+        if not (isinstance(st, (ast.Assign, ast.AnnAssign)) and st.value is not None and isinstance(strip_cast(st.value), ast.Name)
+                and (not isinstance(st, ast.Assign) or (len(st.targets) == 1 and st.targets[0] is own[0]))):
+            return False
+        param = strip_cast(st.value).id
+        if param not in init.params()[1:] or local_defs(init, param) or local_defs(init, "self"):
+            return False
+        ctor = init.node
+    else:
+        # a dataclass / NamedTuple: the generated constructor stores its arguments in the fields
+        dc = [d for d in k.node.decorator_list if (chain(d.func if isinstance(d, ast.Call) else d) or "").split(".")[-1] == "dataclass"]
+        is_nt = [b.split(".")[-1] for b in k.base_names] == ["NamedTuple"]
+        if stores or not (is_nt or (dc and len(k.node.decorator_list) == 1 and not k.base_names)) or attr not in k.annotations or attr in k.attrs \
+                or any(h in k.methods for h in ("__new__", "__post_init__", "__setattr__", "__getattr__", "__getattribute__", attr)) \
+                or any(isinstance(d, ast.Call) and (d.args or any(kw.arg in ("init", "kw_only") for kw in d.keywords)) for d in dc):
+            return False
+        fields = [t.target.id for t in k.node.body if isinstance(t, ast.AnnAssign) and isinstance(t.target, ast.Name)
+                  and "ClassVar" not in norm(t.annotation)]
+        if any("InitVar" in norm(t.annotation) for t in k.node.body if isinstance(t, ast.AnnAssign)):
+            return False
+        param = attr
+        ctor = ast.FunctionDef(name="__init__", args=ast.arguments(posonlyargs=[], args=[ast.arg(arg="self"), *[ast.arg(arg=f) for f in fields]],
+                                                                   kwonlyargs=[], kw_defaults=[], defaults=[]), body=[], decorator_list=[])
+
+    def accept_ctor(call: ast.Call, partial: bool) -> bool:
+        a = _bound_argument(ctor, call, param, 1, 1 if partial else 0)
+        return a is not None and _socket_self_at(ctx, call, a)
+    return _only_called(ctx, k.name, accept_ctor)
+
+
 def _is_exit_socket_alias(fi: FuncInfo, c: ast.Call) -> bool:
     f = c.func
     if isinstance(f, ast.Attribute) and isinstance(f.value, ast.Name):
@@ -1909,9 +3074,16 @@ def rule_null_and_prev_hop(ctx: Ctx) -> None:
     osym = _on_data_sim(ctx)
     _unwalked(osym, on_data, "exit_data")
     ed = ctx.anchor(osym.sites("exit_data"), "exit_data call reached from on_data")
+    # the guard sits in front of the call - or at the top of exit_data itself (on every path to its send, about its own
+    # destination parameter, which the call below fills with the payload's dest_address)
+    xs = _exit_data_sim(ctx)
+    exd = repo.method("TunnelCommunity", "exit_data", TC)
+    in_callee = bool(xs.sites("emit")) and all(xs.verdict(c2, "null") for _, c2 in xs.sites("emit"))
     for fr, c in ed:
         # the destination is the payload's dest_address, and it is not the null address on any path to the call
-        ctx.check(osym.verdict(c, "null") and osym.verdict(c, "payload"), "null-destination", fr.fi, c,
+        passed = arg(c, 2, exd.params()[3]) if len(exd.params()) > 3 else None
+        moved = in_callee and passed is not None
+        ctx.check((osym.verdict(c, "null") or moved) and osym.verdict(c, "payload"), "null-destination", fr.fi, c,
                   "exit_data only on paths with destination != ('0.0.0.0', 0)",
                   "data addressed to 0.0.0.0:0 can be handed to the exit socket", osym.site_facts.get(id(c), []))
     for m, fi, c in repo.callers_of_name("exit_data"):
@@ -2196,6 +3368,58 @@ def _quantity_domain(q: str, info: dict, hint, int_consts: set) -> list:
     return sorted(v for v in dom if v >= 0 and (hi is None or v <= hi))
 
 
+def _split_fields(x: ast.AST, fields: set[str]) -> ast.AST:
+    """copy of canonical expression x in which every big-endian field named in `fields` is spelt by its bytes:
+    be(data, o, 2) == data[o] << 8 | data[o + 1]  (the decision table then ranges over the bytes, all 256 values each)"""
+    class T(ast.NodeTransformer):
+        def visit_Call(self, n: ast.Call) -> ast.AST:
+            if _base_quantity(n) == "field" and norm(n) in fields:
+                off, width = n.args[1].value, n.args[2].value
+                out: ast.AST | None = None
+                for i in range(width):
+                    b = ast.Subscript(value=ast.Name(id="data", ctx=ast.Load()), slice=ast.Constant(value=off + i), ctx=ast.Load())
+                    out = b if out is None else ast.BinOp(left=ast.BinOp(left=out, op=ast.LShift(), right=ast.Constant(value=8)), op=ast.BitOr(), right=b)
+                return out
+            self.generic_visit(n)
+            return n
+    return T().visit(clone(x))
+
+
+def _compiled(x: ast.AST, where: str):
+    """val -> value of canonical expression x, as _ev computes it (compiled once: the decision tables have up to 10^5.. rows);
+    anything the compiled form cannot evaluate is handed to _ev, which explains itself"""
+    class T(ast.NodeTransformer):
+        def visit(self, n: ast.AST) -> ast.AST:
+            if _base_quantity(n) is not None:
+                return ast.Subscript(value=ast.Name(id="v", ctx=ast.Load()), slice=ast.Constant(value=norm(n)), ctx=ast.Load())
+            if isinstance(n, (ast.List, ast.Set)):
+                n = ast.Tuple(elts=list(n.elts), ctx=ast.Load())
+            return self.generic_visit(n)
+    fn = None
+    try:
+        body = T().visit(clone(x))
+        if not any(isinstance(n, (ast.Lambda, ast.Attribute, ast.Starred, ast.NamedExpr, ast.Await, ast.Yield, ast.YieldFrom, ast.JoinedStr,
+                                  ast.ListComp, ast.SetComp, ast.DictComp, ast.GeneratorExp, ast.Dict)) for n in ast.walk(body)) \
+                and all(isinstance(n.func, ast.Name) and n.func.id in ("bool", "int", "any", "all") and len(n.args) == 1 and not n.keywords
+                        for n in ast.walk(body) if isinstance(n, ast.Call)) \
+                and all(n.id == "v" or n.id in ("bool", "int", "any", "all") for n in ast.walk(body) if isinstance(n, ast.Name)):
+            lam = ast.Expression(body=ast.Lambda(args=ast.arguments(posonlyargs=[], args=[ast.arg(arg="v")], kwonlyargs=[], kw_defaults=[], defaults=[]),
+                                                 body=body))
+            ast.fix_missing_locations(lam)
+            fn = eval(compile(lam, "<classifier table>", "eval"), {"__builtins__": {}, "bool": bool, "int": int, "any": any, "all": all})  # noqa: S307
+    except Exception:  # noqa: BLE001
+        fn = None
+
+    def run(val: dict):
+        if fn is not None:
+            try:
+                return fn(val)
+            except Exception:  # noqa: BLE001
+                pass
+        return _ev(x, val, where)
+    return run
+
+
 class _QSym(_Sym):
     """The walk of one classifier: its paths (conditions + returned expression) and the length established at every read."""
 
@@ -2223,8 +3447,9 @@ class _QSym(_Sym):
     def _read_site(n: ast.AST) -> str | None:
         if isinstance(n, ast.Subscript) and isinstance(n.ctx, ast.Load) and not isinstance(n.slice, ast.Slice):
             return "index"
-        if isinstance(n, ast.Call) and (chain(n.func) or "") in ("unpack_from", "struct.unpack_from", "unpack", "struct.unpack", "int.from_bytes"):
-            return "unpack"
+        if isinstance(n, ast.Call) and ((chain(n.func) or "") in ("unpack_from", "struct.unpack_from", "unpack", "struct.unpack", "int.from_bytes")
+                                        or (isinstance(n.func, ast.Attribute) and n.func.attr in ("unpack_from", "unpack", "from_bytes"))):
+            return "unpack"                 # also the methods of a precompiled Struct object (recognised in canonical form by _need)
         return None
 
     def _need(self, fr: _Frame, n: ast.AST, tag: str, st: _St) -> int | None:
@@ -2250,6 +3475,15 @@ class _QSym(_Sym):
         if c == "int.from_bytes":
             b = base(n.args[0]) if n.args else None
             return None if b is None or b[1] is None else b[1]        # a truncated slice is silently read as a smaller field
+        if c not in ("unpack_from", "struct.unpack_from", "unpack", "struct.unpack"):
+            # S.unpack_from(buf, off) on a precompiled struct.Struct(fmt) object (a local, a module-level or class-level constant)
+            if not (isinstance(n.func, ast.Attribute) and n.func.attr in ("unpack_from", "unpack")):
+                return None
+            fmt_s = _struct_format(self.C(fr, n.func.value, st))
+            if fmt_s is None:
+                return None
+            n = ast.Call(func=ast.Name(id=n.func.attr, ctx=ast.Load()), args=[ast.Constant(value=fmt_s), *n.args], keywords=n.keywords)
+            c = n.func.id
         fmt = const_value(self.C(fr, n.args[0], st)) if n.args else NOCONST
         buf = arg(n, 1, "buffer")
         if not isinstance(fmt, str) or buf is None:
@@ -2311,6 +3545,7 @@ def rule_classifiers(ctx: Ctx) -> None:
               "could_be_bt rebinds its data parameter")
 
     bt_atoms = {n: [("truthy", f"DataChecker.{n}({data})", None)] for n in ("could_be_dht", "could_be_udp_tracker", "could_be_utp")}
+    # (a combination of the three classifier results that the walk cannot evaluate is undecided, not a finding)
     ok = all(got == {any(env.values())} for env, got in _table_rows(ctx, bt, bt_atoms, ()))
     ctx.check(ok, "classifier-shape", bt, bt.node, "could_be_bt = utp(data) or udp_tracker(data) or dht(data)",
               "could_be_bt is no longer exactly the disjunction of the three BitTorrent classifiers on its argument")
@@ -2325,9 +3560,20 @@ def rule_classifiers(ctx: Ctx) -> None:
             raise AnalysisError(f"undecided: classifier {name} has no returning path")
         code_q: dict[str, dict] = {}
         int_consts: set[int] = set()
-        for trail, ret in sym.summary:
+        summary = sym.summary
+        for trail, ret in summary:
             for x in [ret, *[c for c, _ in trail]]:
                 _scan_quantities(x, code_q, name)
+        # a 16-bit field that is shifted / masked (instead of compared with constants) is read as its two bytes
+        split = {q for q, info in code_q.items() if info["kind"] == "field" and info["arith"] and q not in spec_q
+                 and int(q.rsplit(",", 1)[1].strip(" )")) <= 2}
+        if split:
+            summary = [(tuple((_split_fields(c, split), lab) for c, lab in trail), _split_fields(ret, split)) for trail, ret in summary]
+            code_q = {}
+        for trail, ret in summary:
+            for x in [ret, *[c for c, _ in trail]]:
+                if split:
+                    _scan_quantities(x, code_q, name)
                 int_consts |= {n.value for n in ast.walk(x) if _is_int_const(n)}
         for cs in spec_q.values():
             int_consts |= {c for c in cs if isinstance(c, int)} if cs != "all" else set()
@@ -2341,16 +3587,17 @@ def rule_classifiers(ctx: Ctx) -> None:
         rows = 1
         for d in doms:
             rows *= len(d)
-        if rows > 200000:
+        if rows > 1200000:
             raise AnalysisError(f"undecided: classifier {name} has a decision table of {rows} rows")
         bad = None
         nbad = 0
+        fast = [([(_compiled(c, name), lab) for c, lab in trail], _compiled(ret, name)) for trail, ret in summary]
         for vals in itertools.product(*doms):
             val = dict(zip(qs, vals))
             got = set()
-            for trail, ret in sym.summary:
-                if all(bool(_ev(c, val, name)) == lab for c, lab in trail):
-                    got.add(bool(_ev(ret, val, name)))
+            for trail, ret in fast:
+                if all(bool(c(val)) == lab for c, lab in trail):
+                    got.add(bool(ret(val)))
             want = bool(spec(val))
             if got != {want}:
                 nbad += 1
@@ -2458,6 +3705,19 @@ WITNESSES = [
             "            else:\n",
      "new": "        if self.exit_sockets[circuit_id].enabled or sock_addr[0] != self.exit_sockets[circuit_id].hop.address[0]:\n"
             "            self.exit_sockets[circuit_id].enable()\n        else:\n            if True:\n"},
+    {"name": "policy decided on a snapshot of the flags taken when the socket was enabled (seeded C06-m11)", "rule": "policy-table", "edits": [
+        {"file": ES, "old": "            self.enabled = True\n",
+         "new": "            self.enabled = True\n            self.exit_flags = frozenset(self.overlay.settings.peer_flags)\n"},
+        {"file": ES, "old": "        self.enabled = False\n", "new": "        self.enabled = False\n        self.exit_flags = None\n"},
+        {"file": ES, "old": "        if not (is_bt and PEER_FLAG_EXIT_BT in self.overlay.settings.peer_flags) \\\n"
+                            "           and not (is_ipv8 and PEER_FLAG_EXIT_IPV8 in self.overlay.settings.peer_flags) \\\n",
+         "new": "        flags = self.overlay.settings.peer_flags if self.exit_flags is None else self.exit_flags\n"
+                "        if not (is_bt and PEER_FLAG_EXIT_BT in flags) \\\n           and not (is_ipv8 and PEER_FLAG_EXIT_IPV8 in flags) \\\n"}]},
+    {"name": "utp extension taken from the low nibble of a 16-bit header read (seeded C06-m12)", "rule": "classifier-shape", "edits": [
+        {"file": ES, "old": "        byte1, byte2 = unpack_from(\"!BB\", data)\n", "new": "        header, = unpack_from(\"!H\", data)\n"},
+        {"file": ES, "old": "if not (0 <= (byte1 >> 4) <= 4 and (byte1 & 15) == 1):",
+         "new": "if not (0 <= (header >> 12) <= 4 and ((header >> 8) & 15) == 1):"},
+        {"file": ES, "old": "        return 0 <= byte2 <= 3\n", "new": "        return 0 <= (header & 15) <= 3\n"}]},
     {"name": "could_be_bt drops dht", "file": ES, "rule": "classifier-shape",
      "old": "                or DataChecker.could_be_udp_tracker(data)\n                or DataChecker.could_be_dht(data))",
      "new": "                or DataChecker.could_be_udp_tracker(data)\n                or DataChecker.could_be_ipv8(data))"},
